@@ -1,652 +1,633 @@
 """C52 - server replay serves recorded responses only to matching requests, in order.
 
-Decided from the source of mitmproxy/addons/serverplayback.py:
-  R52.1 option/key agreement: the set of ``ctx.options.*`` read by ServerPlayback._hash equals HASH_OPTIONS; ``configure`` calls
-        recompute_hashes() whenever one of HASH_OPTIONS is in ``updated`` (unconditionally reachable); every option the addon reads is
-        registered in ``load``.
-  R52.2 key composition (decision table, 128 option cells evaluated by path enumeration of _hash): scheme, method and path always;
-        request content unless ignore_content - as filtered multipart / urlencoded form fields when ignore_payload_params is set and
-        the request has such a form, else the raw content; host unless ignore_host; port unless ignore_port; configured headers iff
-        use_headers; every query pair (name and value, blank values kept) whose name is not in ignore_params; the digest covers the
-        whole key.
-  R52.3 serving discipline: reuse (either option) never mutates flowmap and returns the first recording *with a response*; without
-        reuse recordings leave from the front (pop(0)), a served recording has a response (while-not-response loop or guard), each pop
-        is followed by an emptiness test that deletes the empty list; add_flows appends under setdefault(_hash(f)); recompute_hashes
-        snapshots ALL remaining flows into a list (every list fully, no filter) before load_flows resets the map; ``request``:
-        decision table recorded / kill / status / forward over 16 cells.
-        The serving discipline and the re-index are decided by INTERPRETING next_flow / load_flows / add_flows / recompute_hashes from their
-        ASTs (pyint) on histories, with ``_hash`` an abstract key function of (flow, active option configuration): 6 recorded sets
-        (complete, response-less before / between complete recordings, only response-less, interleaved keys, empty) x 5 request sequences
-        x {non-reuse, reuse, nopop} are compared request by request with the reference model coded from the property (first not-yet-served
-        recording of the key that has a response; reuse: never consumed); 6 recorded sets whose keys split / merge / cross / swap under an option
-        change x 0-2 recordings served before it: after recompute_hashes the addon's own count is unchanged, every remaining recording is
-        served exactly once and only for its own new key, recordings of one old key in order.  A rewritten next_flow / recompute_hashes is thereby analysed; the structural
-        path rules above are applied in addition while the code has the shape they model (else a note, not a refusal).
-  R52.4 recompute_hashes must re-add the remaining recordings in recording order across keys (sorted by a kept index / from a kept
-        global list).  Today it flattens flowmap.values() group by group: KNOWN FINDING F-C52 (findings/F-C52/repro.py), not fixed.
-NOT decided: hash collisions, the form / query parsers, response.refresh().
+Every clause is decided by INTERPRETING the addon's own methods (mitmproxy/addons/serverplayback.py, pyint - nothing is imported or run)
+in concrete worlds and comparing what they do with a reference model written from the property text. No rule matches statement shapes:
+renamed locals, early returns, extracted helpers, comprehensions, match statements, added assertions / counters / annotations are
+interpreted like the original.
+
+  R52.1 option/key agreement: the options ``_hash`` reads (logged while it is interpreted over the whole R52.2 domain, plus the
+        ``ctx.options.*`` reads in everything reachable from it) are exactly HASH_OPTIONS; for every member of HASH_OPTIONS, ``configure``
+        called with that option in ``updated`` re-indexes the remaining recordings (widening and narrowing histories: recordings loaded
+        under the old option value, 0-1 served, option changed, configure(updated), then every new key is drained and compared with the
+        reference); an unrelated update loses nothing; every option the addon reads is registered in ``load``.
+  R52.2 key composition: ``_hash`` is interpreted for 23 concrete requests (a base request and variants differing in exactly one
+        component: scheme, method, path, query name / value / blank value, ignored query parameter, host, port, content, configured /
+        other header, (repeated / ignored) urlencoded and multipart form fields) in all 64 cells of (ignore_content, ignore_payload_params,
+        ignore_host, ignore_port, ignore_params, use_headers). Two requests must get the same digest exactly when the reference key of the
+        property is the same: scheme, method and path always; content unless ignore_content - as non-ignored multipart / urlencoded form
+        fields when ignore_payload_params is set and the request has such a form; host unless ignore_host; port unless ignore_port; the
+        configured headers; every query pair (name and value, blank values kept) whose name is not in ignore_params.
+  R52.3 serving discipline on histories: 6 recorded sets (complete, response-less before / between complete recordings, only
+        response-less, interleaved keys, empty) x 5 request sequences x {non-reuse, reuse, nopop} through next_flow, and through the
+        ``request`` hook (observing flow.response / is_replay / kill): every request gets the first not-yet-served recording of its key that
+        has a response (reuse: the first one, never consumed); ``request``: 32 cells recorded / kill / status / forward, inactive while
+        nothing is loaded. Re-index: 6 recorded sets whose keys split / merge / cross / swap under an option change x 0-2 recordings served
+        before it: after recompute_hashes the addon's own count is unchanged, every remaining recording is served exactly once and only
+        for its own new key, recordings of one old key in order.
+  R52.4 after a re-index the recordings that share a new key are served in recording order. Today they are served grouped by old key:
+        KNOWN FINDING F-C52 (findings/F-C52/repro.py), not fixed; any other order is a new finding.
+The keys in the histories are real: recordings and requests are concrete, key A / key B of a recording are realised by the host (matched
+while ignore_host is off) and the content (matched while ignore_content is off), resp. by the component the changed option governs.
+Generator expressions are interpreted lazily (a snapshot consumed after the map was rebound is fine, after an in-place clear it is not).
+The mechanisms are found by what they do (``discover``: key function = the method whose result for a recording is its key in the index,
+serving function = the method the request hook calls with the request and that returns the recording, loader = the ``replay.server``
+command; the re-index is triggered through configure(updated) when recompute_hashes is not there), with _hash / next_flow / load_flows as
+fall-backs.  ``configure``, ``load`` and ``request`` are the addon hooks.
+NOT decided: hash collisions, the form / query parsers, response.refresh(), order of query parameters.
 """
 
 from __future__ import annotations
 
 import ast
+import collections
+import hashlib
 import itertools
+import urllib
+import urllib.parse
 
 from ..core import AnalysisError
-from ..core import norm
 from ..model import attr_chain
-from ..model import call_name
-from ..model import eval_order
 from ..model import last_attr
-from ..model import stmts_of
-from ..model import walk_in_order
-from ..paths import C
-from ..paths import GenericSpec
-from ..paths import index_of
+from ..pyint import ClassRef
+from ..pyint import Func
+from ..pyint import Interp
+from ..pyint import NullLog
+from ..pyint import Raised
+from ..pyint import Rec
 from ..selftest import Mutant
-from ._helpers_F import kwarg
-from ._helpers_F import own_nodes
-from ._helpers_F import params_of
-from ._helpers_F import StrictEngine
 
 PROP = "C52"
 REG = {
     "strength": "partial",
-    "technique": "registry agreement (options read vs HASH_OPTIONS vs load), decision tables of _hash (128 cells) and request (16 cells) "
-    "evaluated by path enumeration, AST interpretation of next_flow / load_flows / recompute_hashes on request / option-change histories "
-    "against a reference model, path rules on next_flow / add_flows / recompute_hashes",
+    "technique": "AST interpretation (pyint) of _hash over 64 option cells x 23 concrete requests against a reference key; of load / "
+    "configure / next_flow / request / load_flows / add_flows / recompute_hashes on request and option-change histories against a "
+    "reference model of the property; registry agreement (options read vs HASH_OPTIONS vs load)",
     "claim": "the replay key contains exactly the request components the options ask for, option changes that affect the key trigger a "
     "re-index of all remaining recordings, reuse never consumes and serves the first recording with a response, non-reuse serves "
-    "from the front at most once and drops empty lists, unmatched requests are killed / answered / forwarded per option table.",
-    "note": "Loops unrolled once. Trusted: urllib.parse, MultiDict.items(multi=True), hashlib. R52.4 reports the known defect F-C52 (cross-group order after a re-index).",
+    "from the front at most once, unmatched requests are killed / answered / forwarded per option table.",
+    "note": "Representative histories and requests (listed in the module). Trusted: urllib.parse, hashlib, a model of MultiDictView.items(multi=True) "
+    "and Headers.get. R52.4 reports the known defect F-C52 (cross-group order after a re-index).",
 }
 
 F = "mitmproxy/addons/serverplayback.py"
+CLS = "ServerPlayback"
 OPT = "ctx.options."
+P = "server_replay_"
+
+# construct text of the known finding F-C52 (known_findings.json matches on it; the wording is historical, the decision is semantic)
+F_C52 = "flows re-added grouped by old key (comprehension over self.flowmap.values())"
 
 
-def option_reads(node) -> set[str]:
-    return {attr_chain(n)[len(OPT):] for n in ast.walk(node) if isinstance(n, ast.Attribute) and attr_chain(n).startswith(OPT) and attr_chain(n).count(".") == 2}
+# ---------------------------------------------------------------------------------------------------
+# the concrete world
+
+
+class _MultiDict:
+    """Trusted model of mitmproxy's MultiDictView (request.query / urlencoded_form / multipart_form): ordered (name, value) fields."""
+
+    def __init__(self, fields=()):
+        self.fields = tuple((k, v) for k, v in fields)
+
+    def items(self, multi=False):
+        if multi:
+            return list(self.fields)
+        return [(k, self[k]) for k in self.keys()]
+
+    def keys(self, multi=False):
+        ks = [k for k, _ in self.fields]
+        return ks if multi else list(dict.fromkeys(ks))
+
+    def values(self, multi=False):
+        return [v for _, v in self.items(multi)]
+
+    def get_all(self, key):
+        return [v for k, v in self.fields if k == key]
+
+    def get(self, key, default=None):
+        vs = self.get_all(key)
+        return vs[0] if vs else default
+
+    def __getitem__(self, key):
+        vs = self.get_all(key)
+        if not vs:
+            raise KeyError(key)
+        return vs[0]
+
+    def __contains__(self, key):
+        return any(k == key for k, _ in self.fields)
+
+    def __iter__(self):
+        return iter(self.keys())
+
+    def __len__(self):
+        return len(self.keys())
+
+    def __eq__(self, other):
+        return isinstance(other, _MultiDict) and self.fields == other.fields
+
+    def __hash__(self):
+        return hash(self.fields)
+
+    def __repr__(self):
+        return f"MultiDictView{list(self.fields)!r}"
+
+
+class _Headers(_MultiDict):
+    """Trusted model of mitmproxy's Headers: field names compare case-insensitively; get() of a repeated field joins the values."""
+
+    def get_all(self, key):
+        return [v for k, v in self.fields if k.lower() == key.lower()]
+
+    def get(self, key, default=None):
+        vs = self.get_all(key)
+        return ", ".join(vs) if vs else default
+
+    def __getitem__(self, key):
+        vs = self.get_all(key)
+        if not vs:
+            raise KeyError(key)
+        return ", ".join(vs)
+
+    def __contains__(self, key):
+        return bool(self.get_all(key))
+
+    def keys(self, multi=False):
+        ks = [k for k, _ in self.fields]
+        if multi:
+            return ks
+        seen, out = set(), []
+        for k in ks:
+            if k.lower() not in seen:
+                seen.add(k.lower())
+                out.append(k)
+        return out
+
+    def __repr__(self):
+        return f"Headers{list(self.fields)!r}"
+
+
+def _accepting(fn):
+    fn._pyint_accepts_abstract = True
+    return fn
+
+
+_EXTRA_BUILTINS = {"id": _accepting(lambda o: id(o)), "hash": _accepting(lambda o: hash(o))}
+
+
+class _World(Interp):
+    """pyint over the repository in which ``ctx`` (as seen from serverplayback.py) is a record with the given option values, the UI update
+    hook is a no-op, reading flow files returns ``self.file_flows`` and http.Response.make returns a status record.  Option reads are
+    logged; generator expressions are lazy like CPython's."""
+
+    def __init__(self, ses, opts):
+        Interp.__init__(self, ses.model, trusted_modules={"hashlib": hashlib, "urllib": urllib, "urllib.parse": urllib.parse, "logging": NullLog(),
+                                                         "collections": collections, "itertools": itertools}, max_steps=2_000_000)
+        self.ses = ses
+        self._fnkind, self._functext, self._modconst = ses.caches  # per-AST facts and module constants, shared by the worlds of one run
+        self.reads: set = set()
+        self.log = None  # when a list: (method name, arguments, result) of every completed call of an addon method
+        self.file_flows: list = []
+        self.opts = Rec("Options", **opts)
+        master = Rec("Master", addons=Rec("AddonManager", trigger=_accepting(lambda *a, **k: None)))
+        self.overrides[(F, "ctx")] = Rec("ctx", options=self.opts, master=master)
+        self.externals = {}
+
+    def set_options(self, **opts):
+        for k, v in opts.items():
+            object.__setattr__(self.opts, k, v)
+
+    def getattr(self, base, attr, node, depth):
+        if base is self.opts:
+            self.reads.add(attr)
+        return Interp.getattr(self, base, attr, node, depth)
+
+    def name(self, ident, env, mod, depth, node):
+        try:
+            return Interp.name(self, ident, env, mod, depth, node)
+        except AnalysisError:
+            if ident in _EXTRA_BUILTINS:  # identity / hash of a record are those of the record object
+                return _EXTRA_BUILTINS[ident]
+            raise
+
+    def call_func(self, f, args, kwargs, depth):
+        stub = self.ses.stubs.get(id(f.node))
+        if stub is not None:
+            return stub(self, *args, **kwargs)
+        if self.log is None:
+            return Interp.call_func(self, f, args, kwargs, depth)
+        res = Interp.call_func(self, f, args, kwargs, depth)
+        if isinstance(f.bound, Rec) and f.bound._impl == (F, CLS):
+            self.log.append((f.node.name, list(args), res))
+        return res
+
+    def native_call(self, f, args, kwargs, where):
+        # sorted(..., key=<interpreted function>) and friends: hand the native callable a real callable
+        if any(isinstance(v, Func) for v in kwargs.values()):
+            kwargs = {k: ((lambda *a, _f=v: self.apply(_f, list(a), {}, 0)) if isinstance(v, Func) else v) for k, v in kwargs.items()}
+        return Interp.native_call(self, f, args, kwargs, where)
+
+    def builtin(self, name, args, kwargs, e, env, mod, depth):
+        if name == "next" and args and isinstance(args[0], list):
+            raise Raised("TypeError", "'list' object is not an iterator")
+        return Interp.builtin(self, name, args, kwargs, e, env, mod, depth)
+
+    def _lazy(self, v, node):
+        if isinstance(v, (list, tuple, dict, set, frozenset, str, bytes, range, collections.deque)) or type(v).__name__ in ("dict_items", "dict_keys", "dict_values") or hasattr(v, "__next__"):
+            src = iter(v)  # created now: CPython calls iter() on the outermost iterable when the generator object is made
+
+            def gen():
+                while True:
+                    try:
+                        x = next(src)
+                    except StopIteration:
+                        return
+                    except RuntimeError as ex:  # container changed size during iteration
+                        raise Raised("RuntimeError", str(ex))
+                    yield x
+
+            return gen()
+        return iter(self.iterate(v, node))
+
+    def comp(self, e, env, mod, depth):
+        if not isinstance(e, ast.GeneratorExp):
+            return Interp.comp(self, e, env, mod, depth)
+        local = dict(env)
+        gens = e.generators
+        first = self._lazy(self.ev(gens[0].iter, local, mod, depth), gens[0].iter)
+
+        def level(i, it):
+            g = gens[i]
+            for x in it:
+                self.tick()
+                self.assign(g.target, x, local, mod, depth)
+                if all(self.truthy(self.ev(c, local, mod, depth)) for c in g.ifs):
+                    if i + 1 == len(gens):
+                        yield self.ev(e.elt, local, mod, depth)
+                    else:
+                        yield from level(i + 1, self._lazy(self.ev(gens[i + 1].iter, local, mod, depth), gens[i + 1].iter))
+
+        return level(0, first)
+
+
+class _Session:
+    """What every world of one run shares: the model, the anchors, the registered options with their defaults, the library stubs."""
+
+    def __init__(self, ctx):
+        self.ctx = ctx
+        self.model = ctx.model
+        self.mod = ctx.model.module(F)
+        self.cls = ctx.model.cls(F, CLS)
+        self.stubs: dict = {}
+        self.caches: tuple = ({}, {}, {})
+        self.hash_reads: set = set()
+        self.all_reads: set = set()
+        for rel, qual, stub in (("mitmproxy/io/io.py", "read_flows_from_paths", lambda w, *a, **k: list(w.file_flows)),):
+            if self.model.has(rel, qual):
+                self.stubs[id(self.model.func(rel, qual))] = stub
+        if self.model.has("mitmproxy/http.py", "Response"):
+            mk = self.model.method("mitmproxy/http.py", "Response", "make")
+            if mk is not None:
+                self.stubs[id(mk[1])] = _make_response
+        self.registered = self._registered()
+
+    def _registered(self) -> dict:
+        """name -> default of every option registered by ``load`` (interpreted with a recording loader; an unmodelled ``load`` falls back to
+        the literal add_option(...) calls of the class)."""
+        load = self.ctx.func(F, f"{CLS}.load")
+        out: dict = {}
+
+        def add_option(name, typespec=None, default=None, help=None, choices=None, **kw):
+            out[name] = default
+
+        try:
+            w = _World(self, {})
+            w.method(Rec(CLS, _impl=(F, CLS)), "load", Rec("Loader", add_option=_accepting(add_option)))
+        except (AnalysisError, Raised) as e:
+            self.ctx.note(f"load not interpreted ({e}); options taken from the literal add_option calls")
+            out.clear()
+            for c in ast.walk(self.cls):
+                if isinstance(c, ast.Call) and last_attr(c.func) == "add_option" and c.args and isinstance(c.args[0], ast.Constant) and isinstance(c.args[0].value, str):
+                    try:
+                        out[c.args[0].value] = ast.literal_eval(c.args[2]) if len(c.args) > 2 else None
+                    except ValueError:
+                        out[c.args[0].value] = None
+        self.ctx.require(out, "load registers no option (shape not modelled)")
+        return out
+
+    def has_option(self, name):
+        return P + name in self.registered
+
+    def world(self, **opts) -> _World:
+        """options: the registered defaults overlaid with ``opts`` (given without the server_replay_ prefix)"""
+        vals = {k: (list(v) if isinstance(v, list) else v) for k, v in self.registered.items()}
+        vals.update({P + k: v for k, v in opts.items()})
+        return _World(self, vals)
+
+    def addon(self, w) -> Rec:
+        return w.instantiate(ClassRef(self.mod, self.cls), [], {}, 0, "ServerPlayback()")
+
+    def done(self, w, hash_only=False):
+        self.all_reads |= w.reads
+        if hash_only:
+            self.hash_reads |= w.reads
+
+
+def _make_response(w, *args, **kwargs):
+    a = [x for x in args if not isinstance(x, ClassRef)]
+    status = a[0] if a else kwargs.get("status_code", 200)
+    return Rec("Response", _name=f"status {status}", made=status, status_code=status, origin=None)
+
+
+# ---------------------------------------------------------------------------------------------------
+# concrete requests and flows
+
+BASE = dict(scheme="http", method="GET", host="example.com", port=80, path="/p/a", query=(("x", "1"), ("y", "2"), ("blank", "")), content=b"body",
+            headers=(("X-Id", "1"), ("Accept", "a")), urlencoded=(), multipart=())
+
+
+def _spec(base=None, **kw):
+    d = dict(base or BASE)
+    d.update(kw)
+    return d
+
+
+def _request_rec(s) -> Rec:
+    qs = "&".join(f"{k}={v}" for k, v in s["query"])
+    full = s["path"] + ("?" + qs if qs else "")
+    url = f"{s['scheme']}://{s['host']}:{s['port']}{full}"
+    return Rec("Request", _name=f"{s['method']} {url}", scheme=s["scheme"], method=s["method"], host=s["host"], pretty_host=s["host"], host_header=s["host"], port=s["port"], path=full, url=url,
+               pretty_url=url, raw_content=s["content"], content=s["content"], text=s["content"].decode(), http_version="HTTP/1.1", authority="", timestamp_start=0.0,
+               get_content=_accepting(lambda *a, **k: s["content"]), get_text=_accepting(lambda *a, **k: s["content"].decode()),
+               headers=_Headers(s["headers"]), query=_MultiDict(s["query"]),
+               urlencoded_form=_MultiDict(s["urlencoded"]), multipart_form=_MultiDict(s["multipart"]))
+
+
+def _flow_rec(s, idx=None, response=False, name=None) -> Rec:
+    f = Rec("HTTPFlow", _bases=("Flow",), _name=name or f"rec{idx}", idx=idx, request=_request_rec(s), response=None, error=None, is_replay=None, live=False, intercepted=False,
+            id=name or f"rec{idx}", killed=False)
+    object.__setattr__(f, "kill", _accepting(lambda: object.__setattr__(f, "killed", True)))
+    if response:
+        object.__setattr__(f, "response", _response_rec(idx))
+    return f
+
+
+def _response_rec(idx, copy=False) -> Rec:
+    r = Rec("Response", _name=f"resp{idx}" + (" (copy)" if copy else ""), origin=idx, made=None, status_code=200, content=b"recorded", is_copy=copy)
+    object.__setattr__(r, "copy", _accepting(lambda: _response_rec(idx, True)))
+    object.__setattr__(r, "refresh", _accepting(lambda *a, **k: None))
+    return r
+
+
+def _tcp_flow() -> Rec:
+    return Rec("TCPFlow", _bases=("Flow",), _name="tcp", idx="tcp", response=None, error=None, live=False)
+
+
+# ---------------------------------------------------------------------------------------------------
+# R52.2
+
+UFORM = _spec(method="POST", content=b"a=1&tok=s1&a=2", urlencoded=(("a", "1"), ("tok", "s1"), ("a", "2")))
+MFORM = _spec(method="POST", content=b"--b a=1 tok=s1 a=2", multipart=((b"a", b"1"), (b"tok", b"s1"), (b"a", b"2")))
+
+
+def _q(**repl):
+    """the base query with pairs replaced ((name, value) or None = dropped)"""
+    out = []
+    for k, v in BASE["query"]:
+        if k in repl:
+            if repl[k] is not None:
+                out.append(repl[k])
+        else:
+            out.append((k, v))
+    return tuple(out)
+
+
+# (family, component the variant differs in, the variant)
+VARIANTS = [
+    ("plain", "scheme", _spec(scheme="https")),
+    ("plain", "method", _spec(method="PUT")),
+    ("plain", "path", _spec(path="/p/b")),
+    ("plain", "query value", _spec(query=_q(x=("x", "9")))),
+    ("plain", "query name", _spec(query=_q(x=("z", "1")))),
+    ("plain", "blank query value", _spec(query=_q(blank=None))),
+    ("plain", "value of an ignored query parameter", _spec(query=_q(y=("y", "7")))),
+    ("plain", "presence of an ignored query parameter", _spec(query=_q(y=None))),
+    ("plain", "host", _spec(host="other.example")),
+    ("plain", "port", _spec(port=8080)),
+    ("plain", "content", _spec(content=b"other")),
+    ("plain", "configured header", _spec(headers=(("X-Id", "2"), ("Accept", "a")))),
+    ("plain", "presence of a configured header", _spec(headers=(("Accept", "a"),))),
+    ("plain", "header that is not configured", _spec(headers=(("X-Id", "1"), ("Accept", "b")))),
+    ("urlencoded", "urlencoded form field", _spec(UFORM, content=b"a=3&tok=s1&a=2", urlencoded=(("a", "3"), ("tok", "s1"), ("a", "2")))),
+    ("urlencoded", "repeated urlencoded form field", _spec(UFORM, content=b"a=1&tok=s1&a=4", urlencoded=(("a", "1"), ("tok", "s1"), ("a", "4")))),
+    ("urlencoded", "ignored urlencoded form field", _spec(UFORM, content=b"a=1&tok=s2&a=2", urlencoded=(("a", "1"), ("tok", "s2"), ("a", "2")))),
+    ("multipart", "multipart form field", _spec(MFORM, content=b"--b a=3 tok=s1 a=2", multipart=((b"a", b"3"), (b"tok", b"s1"), (b"a", b"2")))),
+    ("multipart", "repeated multipart form field", _spec(MFORM, content=b"--b a=1 tok=s1 a=4", multipart=((b"a", b"1"), (b"tok", b"s1"), (b"a", b"4")))),
+    ("multipart", "ignored multipart form field", _spec(MFORM, content=b"--b a=1 tok=s2 a=2", multipart=((b"a", b"1"), (b"tok", b"s2"), (b"a", b"2")))),
+]
+FAMILIES = {"plain": BASE, "urlencoded": UFORM, "multipart": MFORM}
+KEY_CELLS = [dict(zip(("ignore_content", "ignore_payload_params", "ignore_host", "ignore_port", "ignore_params", "use_headers"), v))
+             for v in itertools.product((False, True), ([], ["tok"]), (False, True), (False, True), ([], ["y"]), ([], ["x-id"]))]
+
+
+def ref_key(s, o):
+    """The matching key of the property for request ``s`` under options ``o``."""
+    ign = o["ignore_params"] or []
+    key = [s["scheme"], s["method"], s["path"], tuple((k, v) for k, v in s["query"] if k not in ign)]
+    if not o["ignore_content"]:
+        pp = o["ignore_payload_params"] or []
+        if pp and s["multipart"]:
+            key.append(("form", tuple((k, v) for k, v in s["multipart"] if k.decode(errors="replace") not in pp)))
+        elif pp and s["urlencoded"]:
+            key.append(("form", tuple((k, v) for k, v in s["urlencoded"] if k not in pp)))
+        else:
+            key.append(("content", s["content"]))
+    if not o["ignore_host"]:
+        key.append(s["host"])
+    if not o["ignore_port"]:
+        key.append(s["port"])
+    hdrs = {k.lower(): v for k, v in s["headers"]}
+    key.append(tuple((h.lower(), hdrs.get(h.lower())) for h in (o["use_headers"] or [])))
+    return tuple(key)
+
+
+def _cell_text(o):
+    return ", ".join(f"{k}={v}" for k, v in o.items())
+
+
+def check_key(ctx, ses):
+    fn = ctx.func(F, f"{CLS}.{ses.keyfn}")
+    W = (F, f"{CLS}.{ses.keyfn}", fn)
+    reqs = [(fam, None, s) for fam, s in FAMILIES.items()] + VARIANTS
+    lacks, contains, raises, generic = {}, {}, {}, None
+    for o in KEY_CELLS:
+        w = ses.world(**o)
+        addon = ses.addon(w)
+        ctx.cells += 1
+        digests = []
+        for fam, label, s in reqs:
+            try:
+                d = w.method(addon, ses.keyfn, _flow_rec(s, name="request"))
+            except Raised as r:
+                raises.setdefault(r.name, f"{_request_rec(s)._name}, {_cell_text(o)}")
+                d = None
+            digests.append(d)
+            ctx.paths += 1
+        ses.done(w, hash_only=True)
+        if any(d is None for d in digests):
+            continue
+        try:
+            for d in digests:
+                hash(d)
+        except TypeError:
+            raise AnalysisError(f"{ses.keyfn} returns an unhashable value")
+        refs = [ref_key(s, o) for _, _, s in reqs]
+        by_family = {fam: (digests[i], refs[i]) for i, (fam, label, s) in enumerate(reqs) if label is None}
+        for (fam, label, s), d, ref in zip(reqs, digests, refs):
+            if label is None:
+                continue
+            want_same = ref == by_family[fam][1]
+            same = d == by_family[fam][0]
+            if want_same and not same:
+                contains.setdefault(label, _cell_text(o))
+            elif same and not want_same:
+                lacks.setdefault(label, _cell_text(o))
+        if generic is None:
+            for (i, a), (j, b) in itertools.combinations(enumerate(reqs), 2):
+                if (digests[i] == digests[j]) != (refs[i] == refs[j]):
+                    generic = (_request_rec(a[2])._name, _request_rec(b[2])._name, digests[i] == digests[j], _cell_text(o))
+                    break
+    for name, where in raises.items():
+        ctx.fail("R52.2", W, f"{ses.keyfn} raises {name}", f"the key of a valid request cannot be computed ({where})")
+    for m, desc in lacks.items():
+        ctx.fail("R52.2", W, f"key lacks {m}", f"two requests differing only in the {m} get the same key although the options ask to match it (e.g. {desc})")
+    for x, desc in contains.items():
+        ctx.fail("R52.2", W, f"key contains {x}", f"the {x} enters the key although the options ask to ignore it (e.g. {desc}): matching requests are not served")
+    if generic and not (lacks or contains or raises):
+        ctx.fail("R52.2", W, "key equality differs from the property", f"{generic[0]} and {generic[1]} get {'the same key' if generic[2] else 'different keys'} with {generic[3]}; the property asks for the opposite")
+    if not (lacks or contains or raises or generic):
+        for fam, label, s in VARIANTS:
+            ctx.ok("R52.2", f"{ses.keyfn}: {label} distinguishes two requests exactly when the options ask for it ({len(KEY_CELLS)} option cells)")
+    ctx.sample({"rule": "R52.2", "cells": len(KEY_CELLS), "requests": [_request_rec(s)._name + (f" [{label}]" if label else "") for _, label, s in reqs][:8]})
 
 
 # ---------------------------------------------------------------------------------------------------
 # R52.1
 
 
-def check_options(ctx):
-    hash_fn = ctx.func(F, "ServerPlayback._hash")
-    listed = ctx.model.literal(F, "HASH_OPTIONS")
-    ctx.require(isinstance(listed, list) and all(isinstance(x, str) for x in listed), "HASH_OPTIONS is not a list of strings")
-    read = option_reads(hash_fn)
-    for c in own_nodes(hash_fn):
-        if isinstance(c, ast.Call) and attr_chain(c.func).startswith("self.") and ctx.model.has(F, "ServerPlayback." + attr_chain(c.func)[5:]):
-            raise AnalysisError(f"_hash calls {norm(c.func)}: options read by helpers are not modelled")
-        if isinstance(c, ast.Call) and call_name(c) == "getattr" and c.args and attr_chain(c.args[0]) == "ctx.options":
-            raise AnalysisError("_hash reads options through getattr (not modelled)")
+def static_option_reads(node) -> set:
+    out = set()
+    for n in ast.walk(node):
+        if isinstance(n, ast.Attribute):
+            ch = attr_chain(n)
+            if ch.startswith(OPT) and ch.count(".") == 2:
+                out.add(ch[len(OPT):])
+    return out
+
+
+def reachable(ses, fn) -> list:
+    """``fn`` and every method of the addon / function of its module it can call (transitively; by name, over-approximate)."""
+    seen, todo = [], [fn]
+    while todo:
+        f = todo.pop()
+        if any(f is g for g in seen):
+            continue
+        seen.append(f)
+        for c in ast.walk(f):
+            if not isinstance(c, ast.Call):
+                continue
+            tgt = None
+            if isinstance(c.func, ast.Attribute) and isinstance(c.func.value, ast.Name) and c.func.value.id in ("self", "cls", CLS):
+                r = ses.model.method(F, CLS, c.func.attr)
+                tgt = r[1] if r else None
+            elif isinstance(c.func, ast.Name):
+                d = ses.mod.get(c.func.id)
+                tgt = d if isinstance(d, ast.FunctionDef) else None
+            if tgt is not None:
+                todo.append(tgt)
+    return seen
+
+
+def check_options(ctx, ses):
+    hash_fn = ctx.func(F, f"{CLS}.{ses.keyfn}")
+    ctx.require(ses.mod.assigns("HASH_OPTIONS"), "anchor constant vanished: HASH_OPTIONS")
+    try:
+        listed = list(ses.world().modconst(ses.mod, "HASH_OPTIONS", 0))
+    except (TypeError, Raised) as e:
+        raise AnalysisError(f"HASH_OPTIONS is not a collection of option names ({e})")
+    ctx.require(all(isinstance(x, str) for x in listed), "HASH_OPTIONS is not a collection of option names")
+    listed = sorted(set(listed))
+    read = set(ses.hash_reads)
+    for f in reachable(ses, hash_fn):
+        read |= static_option_reads(f)
     for o in sorted(read | set(listed)):
         if o in read and o not in listed:
-            ctx.fail("R52.1", (F, "ServerPlayback._hash", hash_fn), f"_hash reads {o}, which is not in HASH_OPTIONS",
+            ctx.fail("R52.1", (F, f"{CLS}.{ses.keyfn}", hash_fn), f"{ses.keyfn} reads {o}, which is not in HASH_OPTIONS",
                      "changing this option does not trigger recompute_hashes: recordings stay indexed under stale keys and never match")
         elif o not in read:
-            ctx.fail("R52.1", (F, "<module>", ctx.model.const(F, "HASH_OPTIONS")), f"HASH_OPTIONS lists {o}, which _hash does not read",
+            ctx.fail("R52.1", (F, "<module>", ses.mod.assigns("HASH_OPTIONS")[-1]), f"HASH_OPTIONS lists {o}, which {ses.keyfn} does not read",
                      "the key ignores an option documented to affect matching")
         else:
-            ctx.ok("R52.1", f"{o}: read by _hash and listed in HASH_OPTIONS")
-    ctx.require(len(set(listed)) == len(listed), "HASH_OPTIONS has duplicates")
-    # configure -> recompute_hashes
-    cfg = ctx.func(F, "ServerPlayback.configure")
-    upd = params_of(cfg)[1]
-    calls = [c for c in own_nodes(cfg) if isinstance(c, ast.Call) and call_name(c) == "self.recompute_hashes"]
-    guards = [s for s in cfg.body if isinstance(s, ast.If) and any(c in list(ast.walk(s)) for c in calls)]
-    ok = len(calls) == 1 and len(guards) == 1
-    if ok:
-        g = guards[0]
-        names = {n.id for n in ast.walk(g.test) if isinstance(n, ast.Name)}
-        ok = {"HASH_OPTIONS", upd} <= names and any(isinstance(s, ast.Expr) and s.value is calls[0] for s in g.body)
-        shape = norm(g.test) in (f"any((option in {upd} for option in HASH_OPTIONS))", f"any((o in {upd} for o in HASH_OPTIONS))") or (
-            isinstance(g.test, ast.Call) and call_name(g.test) == "any" and isinstance(g.test.args[0], (ast.GeneratorExp, ast.ListComp))
-            and isinstance(g.test.args[0].elt, ast.Compare) and isinstance(g.test.args[0].elt.ops[0], ast.In)
-            and attr_chain(g.test.args[0].elt.comparators[0]) == upd and attr_chain(g.test.args[0].generators[0].iter) == "HASH_OPTIONS"
-            and not g.test.args[0].generators[0].ifs)
-        ctx.require(not ok or shape, f"configure: guard of recompute_hashes not modelled: {norm(g.test)}")
-        early = [n for s in cfg.body[: cfg.body.index(g)] for n in ast.walk(s) if isinstance(n, ast.Return)]
-        ok = ok and not early
-    ctx.check(ok, "R52.1", (F, "ServerPlayback.configure", cfg), "configure: recompute_hashes() when a HASH_OPTIONS member is updated",
-              "a changed matching option leaves the recordings indexed under the old keys", desc="configure: any(option in updated for option in HASH_OPTIONS) -> recompute_hashes()")
-    # registration
-    load = ctx.func(F, "ServerPlayback.load")
-    registered = {c.args[0].value for c in own_nodes(load) if isinstance(c, ast.Call) and last_attr(c.func) == "add_option" and c.args and isinstance(c.args[0], ast.Constant)}
-    used = option_reads(ctx.model.cls(F, "ServerPlayback"))
-    missing = sorted(used - registered)
-    ctx.check(not missing, "R52.1", (F, "ServerPlayback.load", load), f"options read but not registered: {missing}", "reading an unregistered option raises at run time",
+            ctx.ok("R52.1", f"{o}: read by {ses.keyfn} and listed in HASH_OPTIONS")
+    return listed
+
+
+def check_registration(ctx, ses):
+    load = ctx.func(F, f"{CLS}.load")
+    used = {o for o in static_option_reads(ses.mod.tree) | ses.all_reads if o.startswith(P.rstrip("_"))}  # other options belong to other addons
+    missing = sorted(used - set(ses.registered))
+    ctx.check(not missing, "R52.1", (F, f"{CLS}.load", load), f"options read but not registered: {missing}", "reading an unregistered option raises at run time",
               desc=f"all {len(used)} options read by the addon are registered in load")
 
 
 # ---------------------------------------------------------------------------------------------------
-# R52.2
+# histories: scenarios (how abstract keys are realised by concrete requests), reference model
 
 
-class HashSpec(GenericSpec):
-    def __init__(self, info):
-        super().__init__(record_conds=True)
-        self.i = info
+class Scenario:
+    """Option configurations A and B and the concrete request that has key ``a`` under A and key ``b`` under B."""
 
-    def value(self, expr, st, depth):
-        ch = attr_chain(expr)
-        if ch.startswith(OPT) and st.has("$" + ch[len(OPT):]):
-            return st.get("$" + ch[len(OPT):])
-        if ch == f"{self.i['r']}.multipart_form":
-            return st.get("$multipart")
-        if ch == f"{self.i['r']}.urlencoded_form":
-            return st.get("$urlencoded")
-        return super().value(expr, st, depth)
+    name = "host / content"
+    A = {"ignore_host": False, "ignore_content": True}
+    B = {"ignore_host": True, "ignore_content": False}
 
-    def tag(self, e, loopvar_of_filtered=None):
-        r = self.i["r"]
-        tags = set()
-        for n in ast.walk(e):
-            if isinstance(n, ast.Attribute) and isinstance(n.value, ast.Name) and n.value.id == r:
-                tags.add({"raw_content": "content", "content": "content", "text": "content", "pretty_host": "host", "host": "host"}.get(n.attr, n.attr))
-            elif isinstance(n, ast.Name) and n.id == self.i["path"]:
-                tags.add("path")
-            elif isinstance(n, ast.Name) and n.id == self.i.get("headers_list"):
-                tags.add("headers")
-            elif isinstance(n, ast.Subscript) and isinstance(n.value, ast.Name) and n.value.id in self.i["qvars"] and isinstance(n.slice, ast.Constant):
-                tags.add({0: "qname", 1: "qvalue"}.get(n.slice.value, "q?"))
-        if isinstance(e, (ast.GeneratorExp, ast.ListComp)):
-            g = e.generators[0]
-            filt = any(isinstance(c, ast.Compare) and isinstance(c.ops[0], ast.NotIn) and attr_chain(c.comparators[0]) == OPT + "server_replay_ignore_payload_params" for c in g.ifs)
-            pair = isinstance(e.elt, ast.Tuple) and len(e.elt.elts) == 2 and isinstance(g.target, ast.Tuple) and [norm(x) for x in e.elt.elts] == [norm(x) for x in g.target.elts]
-            multi = isinstance(g.iter, ast.Call) and last_attr(g.iter.func) == "items" and (any(k.arg == "multi" and isinstance(k.value, ast.Constant) and k.value.value for k in g.iter.keywords)
-                                                                                            or (g.iter.args and isinstance(g.iter.args[0], ast.Constant) and g.iter.args[0].value))
-            if filt and pair and multi and len(e.generators) == 1:
-                tags = {t + "+filtered-pairs" if t in ("multipart_form", "urlencoded_form") else t for t in tags}
-        tags.discard("headers") if "headers" in tags and tags != {"headers"} and not (isinstance(e, ast.Name)) else None
-        return "|".join(sorted(tags)) or "?"
+    def recording(self, a, b):
+        return _spec(host=f"{a}.example", content=b.encode())
 
-    def events(self, node, st):
-        out = []
-        key = self.i["key"]
-        if isinstance(node, (ast.Assign, ast.AnnAssign)):
-            tgt = node.targets[0] if isinstance(node, ast.Assign) else node.target
-            if isinstance(tgt, ast.Name) and tgt.id == key:
-                if not isinstance(node.value, ast.List):
-                    raise AnalysisError(f"_hash: `{key}` is (re)bound to {norm(node.value)} (not modelled)")
-                out += [("key", self.tag(e)) for e in node.value.elts]
-        elif isinstance(node, ast.AugAssign) and isinstance(node.target, ast.Name) and node.target.id == key:
-            raise AnalysisError(f"_hash: `{key} {norm(node.op)}= ...` not modelled")
-        for n in eval_order(node):
-            if isinstance(n, ast.Call) and isinstance(n.func, ast.Attribute) and isinstance(n.func.value, ast.Name):
-                if n.func.value.id == key:
-                    if n.func.attr in ("append", "extend") and len(n.args) == 1:
-                        out.append(("key", self.tag(n.args[0])))
-                    else:
-                        raise AnalysisError(f"_hash: {norm(n)} not modelled")
-                elif n.func.value.id == self.i["filtered"] and n.func.attr == "append":
-                    ok = len(n.args) == 1 and isinstance(n.args[0], ast.Name) and n.args[0].id in self.i["rawq"]
-                    out.append(("filtered", ok))
-        return out
-
-    def cond_event(self, expr, value, st):
-        if isinstance(expr, ast.Compare) and len(expr.ops) == 1 and isinstance(expr.ops[0], (ast.In, ast.NotIn)):
-            left, right = expr.left, expr.comparators[0]
-            is_name = isinstance(left, ast.Subscript) and isinstance(left.value, ast.Name) and left.value.id in self.i["rawq"] and isinstance(left.slice, ast.Constant) and left.slice.value == 0
-            is_ign = attr_chain(right) == OPT + "server_replay_ignore_params" or (isinstance(right, ast.Name) and right.id == self.i.get("ignore_params"))
-            if is_name and is_ign:
-                return ("qignored", value if isinstance(expr.ops[0], ast.In) else not value)
-        return None
+    def request(self, mode, key):
+        return _spec(host=f"{key}.example", content=key.encode())
 
 
-def hash_info(ctx, fn):
-    flow = params_of(fn)[1]
-    info = {"qvars": set(), "rawq": set()}
-    for st in stmts_of(fn):
-        if isinstance(st, ast.Assign) and len(st.targets) == 1:
-            t, v = st.targets[0], st.value
-            if isinstance(t, ast.Name) and attr_chain(v) == f"{flow}.request":
-                info["r"] = t.id
-            elif isinstance(t, ast.Tuple) and isinstance(v, ast.Call) and call_name(v).endswith("urlparse") and len(t.elts) == 6 and all(isinstance(e, ast.Name) for e in t.elts):
-                ctx.require(v.args and attr_chain(v.args[0]) == f"{info.get('r')}.url", "_hash: urlparse argument is not r.url")
-                info["path"], info["query"] = t.elts[2].id, t.elts[4].id
-            elif isinstance(t, ast.Name) and isinstance(v, ast.Call) and call_name(v).endswith("parse_qsl"):
-                info["qarray"] = t.id
-                info["parse_qsl"] = v
-            elif isinstance(t, ast.Name) and isinstance(v, ast.List) and not v.elts and "key" in info and "filtered" not in info:
-                info["filtered"] = t.id
-            elif isinstance(t, ast.Name) and isinstance(v, ast.BoolOp) and attr_chain(v.values[0]) == OPT + "server_replay_ignore_params":
-                info["ignore_params"] = t.id
-        elif isinstance(st, ast.AnnAssign) and isinstance(st.target, ast.Name) and isinstance(st.value, ast.List) and "key" not in info:
-            info["key"] = st.target.id
-        if isinstance(st, ast.Assign) and len(st.targets) == 1 and isinstance(st.targets[0], ast.Name) and isinstance(st.value, ast.List) and st.value.elts and "key" not in info:
-            info["key"] = st.targets[0].id
-    for k in ("r", "path", "query", "qarray", "key", "filtered"):
-        ctx.require(k in info, f"_hash: could not identify `{k}` (shape not modelled)")
-    for n in own_nodes(fn):
-        if isinstance(n, ast.For) and isinstance(n.target, ast.Name):
-            if isinstance(n.iter, ast.Name) and n.iter.id == info["filtered"]:
-                info["qvars"].add(n.target.id)
-            elif isinstance(n.iter, ast.Name) and n.iter.id == info["qarray"]:
-                info["rawq"].add(n.target.id)
-            elif attr_chain(n.iter) == OPT + "server_replay_use_headers":
-                info["hdr_loop"] = n
-    # headers list: the local list appended to inside the use_headers loop
-    if "hdr_loop" in info:
-        for c in ast.walk(info["hdr_loop"]):
-            if isinstance(c, ast.Call) and isinstance(c.func, ast.Attribute) and c.func.attr == "append" and isinstance(c.func.value, ast.Name):
-                info["headers_list"] = c.func.value.id
-                info["hdr_append"] = c
-    return info
+class OptionScenario(Scenario):
+    """One matching option changes between a value under which ``component`` is matched (strict: key = label) and one under which it is
+    ignored (loose: one key 'p' for everything on the base path)."""
 
+    COMPONENTS = {
+        "ignore_host": (False, True, lambda l: _spec(host=f"{l}.example")),
+        "ignore_port": (False, True, lambda l: _spec(port=8000 + sum(map(ord, l)))),
+        "ignore_content": (False, True, lambda l: _spec(content=l.encode())),
+        "ignore_params": ([], ["y"], lambda l: _spec(query=_q(y=("y", l)))),
+        "ignore_payload_params": ([], ["tok"], lambda l: _spec(UFORM, content=f"a=1&tok={l}".encode(), urlencoded=(("a", "1"), ("tok", l)))),
+        "use_headers": (["x-id"], [], lambda l: _spec(headers=(("X-Id", l), ("Accept", "a")))),
+    }
 
-def expected_tags(cell):
-    ic, pp, mp, ue, ih, ip, uh = cell
-    want = {"scheme", "method", "path"}
-    if not ic:
-        if pp and mp:
-            want.add("multipart_form+filtered-pairs")
-        elif pp and ue:
-            want.add("urlencoded_form+filtered-pairs")
-        else:
-            want.add("content")
-    if not ih:
-        want.add("host")
-    if not ip:
-        want.add("port")
-    if uh:
-        want.add("headers")
-    return want
+    def __init__(self, option, widening):
+        strict, loose, self.make = self.COMPONENTS[option]
+        self.option = option
+        self.widening = widening
+        self.A, self.B = ({option: strict}, {option: loose}) if widening else ({option: loose}, {option: strict})
+        self.name = f"{P}{option}: {strict!r} -> {loose!r}" if widening else f"{P}{option}: {loose!r} -> {strict!r}"
 
+    def strict(self, mode):
+        return (mode == "A") == self.widening
 
-def check_key(ctx):
-    fn = ctx.func(F, "ServerPlayback._hash")
-    info = hash_info(ctx, fn)
-    W = (F, "ServerPlayback._hash", fn)
-    names = ("server_replay_ignore_content", "server_replay_ignore_payload_params", "$multipart", "$urlencoded", "server_replay_ignore_host",
-             "server_replay_ignore_port", "server_replay_use_headers")
-    truthy = {1: C(("x",)), 6: C(("x",))}
-    missing, extra = {}, {}
-    q_ok = q_seen = False
-    q_bad = None
-    for cell in itertools.product((False, True), repeat=7):
-        env = {}
-        for i, (n, v) in enumerate(zip(names, cell)):
-            val = (truthy[i] if v else C(())) if i in truthy else (C(True) if v else (C(None) if n.startswith("$") else C(False)))
-            env[n if n.startswith("$") else "$" + n] = val
-        eng = StrictEngine(HashSpec(info), lambda e: HashSpec(info).cond_event(e, True, None) is not None, "_hash")
-        trs = eng.terminal(fn, env)
-        ctx.cells += 1
-        ctx.paths += len(trs)
-        want = expected_tags(cell)
-        for tr, how, _ in trs:
-            ctx.require(how == "return", f"_hash raises on a path ({how})")
-            got = {e[1] for e in tr if e[0] == "key"}
-            ctx.require("?" not in got and "q?" not in got, f"_hash: a key component could not be classified on path {list(tr)}")
-            qpart = {g for g in got if g in ("qname", "qvalue")}
-            got -= qpart
-            desc = ", ".join(f"{n.replace('server_replay_', '').replace('$', 'has_')}={v}" for n, v in zip(names, cell))
-            for m in want - got:
-                missing.setdefault(m, desc)
-            for x in got - want:
-                extra.setdefault(x, desc)
-            if qpart:
-                q_seen = True
-                if qpart != {"qname", "qvalue"}:
-                    q_bad = q_bad or f"a query pair contributes only {sorted(qpart)}"
-            # filtering of query pairs
-            for i, e in enumerate(tr):
-                if e == ("qignored", False) and not any(x[0] == "filtered" for x in tr[i + 1:i + 2]):
-                    q_bad = q_bad or "a query pair whose name is not ignored is dropped"
-                if e == ("qignored", True) and any(x[0] == "filtered" for x in tr[i + 1:i + 2]):
-                    q_bad = q_bad or "an ignored query parameter still enters the key"
-                if e[0] == "filtered":
-                    if not e[1]:
-                        q_bad = q_bad or "the filtered list receives something other than the query pair"
-                    if i == 0 or tr[i - 1][0] != "qignored":
-                        q_bad = q_bad or "query pairs are collected without testing ignore_params"
-                    q_ok = True
-    for m, desc in missing.items():
-        ctx.fail("R52.2", W, f"key lacks {m}", f"requests differing only in {m} get the same key although the options ask to match it (e.g. {desc})")
-    for x, desc in extra.items():
-        ctx.fail("R52.2", W, f"key contains {x}", f"{x} enters the key although the options ask to ignore it (e.g. {desc}): matching requests are not served")
-    if not missing and not extra:
-        for comp in ("scheme|method|path always", "content / filtered form fields unless ignore_content", "host unless ignore_host", "port unless ignore_port", "headers iff use_headers"):
-            ctx.ok("R52.2", f"_hash key: {comp} (128 cells)")
-    ctx.require(q_seen and (q_ok or q_bad), "_hash: query handling not recognised")
-    ctx.check(not q_bad, "R52.2", W, f"query pairs: {q_bad}", "every query pair whose name is not in ignore_params must contribute name and value", desc="_hash key: name and value of every non-ignored query pair")
-    # parse_qsl keeps blank values, on the query of r.url
-    pq = info["parse_qsl"]
-    kb = kwarg(pq, "keep_blank_values")
-    ok = pq.args and isinstance(pq.args[0], ast.Name) and pq.args[0].id == info["query"] and isinstance(kb, ast.Constant) and kb.value is True
-    ctx.check(ok, "R52.2", W, norm(pq), "pairs with empty values (?a=) must not be dropped from the key", desc="parse_qsl(query, keep_blank_values=True)")
-    # configured headers: (name, value of that request header) for every configured name
-    ok = "hdr_append" in info
-    if ok:
-        loop, app = info["hdr_loop"], info["hdr_append"]
-        gets = [c for c in ast.walk(loop) if isinstance(c, ast.Call) and call_name(c) in (f"{info['r']}.headers.get", f"{info['r']}.headers.get_all") and c.args and isinstance(c.args[0], ast.Name) and c.args[0].id == loop.target.id]
-        ok = bool(gets) and any(isinstance(n, ast.Name) and n.id == loop.target.id for n in ast.walk(app.args[0])) and not any(isinstance(n, (ast.If, ast.Break, ast.Continue)) for n in ast.walk(loop))
-    ctx.check(ok, "R52.2", W, "configured headers -> (name, r.headers.get(name))", "every configured header must contribute its value to the key", desc="_hash key: (name, r.headers.get(name)) for every configured header")
-    # digest over the whole key
-    rets = [n for n in own_nodes(fn) if isinstance(n, ast.Return)]
-    ctx.require(len(rets) == 1, "_hash: more than one return")
-    whole = [c for c in ast.walk(rets[0]) if isinstance(c, ast.Call) and call_name(c) in ("repr", "str", "tuple") and len(c.args) == 1 and isinstance(c.args[0], ast.Name) and c.args[0].id == info["key"]]
-    ctx.check(bool(whole), "R52.2", W, norm(rets[0]), "the returned key must cover every collected component", desc="_hash returns a digest of repr(key)")
+    def recording(self, a, b):
+        return self.make(a if self.widening else b)
 
-
-# ---------------------------------------------------------------------------------------------------
-# R52.3
-
-
-def is_flowlist(e):
-    """self.flowmap[<k>]"""
-    return isinstance(e, ast.Subscript) and attr_chain(e.value) == "self.flowmap"
-
-
-class NextSpec(GenericSpec):
-    def __init__(self):
-        super().__init__(record_conds=True)
-
-    def value(self, expr, st, depth):
-        ch = attr_chain(expr)
-        if ch in (OPT + "server_replay_reuse", OPT + "server_replay_nopop"):
-            return st.get("$" + ch[len(OPT):])
-        return super().value(expr, st, depth)
-
-    def events(self, node, st):
-        out = []
-        for n in eval_order(node):
-            if isinstance(n, ast.Call) and isinstance(n.func, ast.Attribute) and is_flowlist(n.func.value):
-                if n.func.attr in ("pop", "popleft"):
-                    front = n.func.attr == "popleft" or (len(n.args) == 1 and isinstance(n.args[0], ast.Constant) and n.args[0].value == 0)
-                    out.append(("pop", front))
-                elif n.func.attr in ("remove", "clear", "insert", "append", "extend", "reverse", "sort"):
-                    out.append(("mutate", n.func.attr))
-            elif isinstance(n, ast.Call) and attr_chain(n.func) in ("self.flowmap.pop", "self.flowmap.clear", "self.flowmap.popitem"):
-                out.append(("dellist",))
-        if isinstance(node, ast.Delete):
-            for t in node.targets:
-                if is_flowlist(t):
-                    out.append(("dellist",))
-                else:
-                    out.append(("mutate", norm(t)))
-        if isinstance(node, ast.Assign) and any(is_flowlist(t) or attr_chain(t) == "self.flowmap" for t in node.targets):
-            out.append(("mutate", "assign"))
-        if isinstance(node, ast.Return):
-            v = node.value
-            out.append(("return", "None" if v is None or (isinstance(v, ast.Constant) and v.value is None) else norm(v)))
-        return out
-
-    def cond_event(self, expr, value, st):
-        if is_flowlist(expr):
-            return ("nonempty", value)
-        if isinstance(expr, ast.Attribute) and expr.attr == "response" and isinstance(expr.value, ast.Name):
-            return ("has-response", value)
-        if isinstance(expr, ast.Compare) and len(expr.ops) == 1 and isinstance(expr.ops[0], (ast.In, ast.NotIn)) and attr_chain(expr.comparators[0]) == "self.flowmap":
-            return ("known", value if isinstance(expr.ops[0], ast.In) else not value)
-        return None
-
-
-def check_next_flow(ctx):
-    fn = ctx.func(F, "ServerPlayback.next_flow")
-    W = (F, "ServerPlayback.next_flow", fn)
-    sp = NextSpec()
-    allow = lambda e: sp.cond_event(e, True, None) is not None
-    reuse_mut, reuse_ret = None, set()
-    pop_traces = []
-    for reuse, nopop in itertools.product((False, True), repeat=2):
-        eng = StrictEngine(NextSpec(), allow, "next_flow")
-        trs = eng.terminal(fn, {"$server_replay_reuse": C(reuse), "$server_replay_nopop": C(nopop)})
-        ctx.cells += 1
-        ctx.paths += len(trs)
-        for tr, how, _ in trs:
-            if reuse or nopop:
-                if any(e[0] in ("pop", "mutate", "dellist") for e in tr):
-                    reuse_mut = reuse_mut or (reuse, nopop, tr)
-                if not any(e[0] in ("pop", "mutate", "dellist") for e in tr):
-                    reuse_ret |= {e[1] for e in tr if e[0] == "return" and e[1] != "None" and ("known", True) in tr}
-            else:
-                pop_traces.append(tr)
-    if reuse_mut:
-        ctx.fail("R52.3", W, "reuse mode consumes recordings", f"with server_replay_reuse={reuse_mut[0]}, server_replay_nopop={reuse_mut[1]} the path {list(reuse_mut[2])} mutates flowmap")
-    else:
-        ctx.ok("R52.3", "next_flow: reuse / nopop never mutates flowmap (3 cells)")
-    # reuse returns the first recording with a response
-    rets = [n for n in own_nodes(fn) if isinstance(n, ast.Return) and isinstance(n.value, ast.Call) and call_name(n.value) == "next"]
-    ctx.require(len(rets) == 1 and (reuse_mut or (len(reuse_ret) == 1 and norm(rets[0].value) in reuse_ret)), f"next_flow: reuse-mode result not modelled: {sorted(reuse_ret)}")
-    nx = rets[0].value
-    ctx.require(len(nx.args) == 2 and isinstance(nx.args[0], ast.GeneratorExp) and isinstance(nx.args[1], ast.Constant) and nx.args[1].value is None, f"next_flow: {norm(nx)} not modelled")
-    g = nx.args[0]
-    gen = g.generators[0]
-    ctx.require(len(g.generators) == 1 and isinstance(gen.target, ast.Name) and isinstance(g.elt, ast.Name) and g.elt.id == gen.target.id and is_flowlist(gen.iter), f"next_flow: {norm(g)} not modelled")
-    has_resp = any(isinstance(c, ast.Attribute) and c.attr == "response" and isinstance(c.value, ast.Name) and c.value.id == gen.target.id for c in gen.ifs) and len(gen.ifs) == 1
-    ctx.check(has_resp, "R52.3", W, f"reuse: {norm(nx)}", "reuse must serve the first recording that has a response (request() asserts rflow.response)",
-              desc="next_flow (reuse): first recording of the list with a response, else None")
-    # non-reuse: FIFO, each pop followed by an emptiness test that drops the empty list
-    ctx.require(any(("pop", True) in tr or ("pop", False) in tr for tr in pop_traces), "next_flow: no consuming path found (shape not modelled)")
-    bad = None
-    for tr in pop_traces:
-        for i, e in enumerate(tr):
-            if e[0] == "pop":
-                if not e[1]:
-                    bad = bad or ("recordings are not taken from the front of the list (recording order)", tr)
-                j = index_of(tr, lambda x: x[0] in ("nonempty", "pop", "return"), i + 1)
-                # the next list-related event after a pop must be the emptiness test (loop re-test of .response may come in between)
-                if j < 0 or tr[j][0] != "nonempty":
-                    bad = bad or ("a pop is not followed by an emptiness test of the list (an empty list stays in flowmap and the next lookup raises IndexError)", tr)
-                elif tr[j] == ("nonempty", False) and not (j + 1 < len(tr) and tr[j + 1] == ("dellist",)):
-                    bad = bad or ("an emptied list is not deleted from flowmap", tr)
-            if e[0] == "mutate":
-                bad = bad or (f"unexpected mutation {e[1]}", tr)
-        if any(e[0] == "pop" for e in tr) and ("known", True) not in tr:
-            bad = bad or ("pop without checking that the key is known", tr)
-    ctx.check(not bad, "R52.3", W, f"non-reuse: {bad[0] if bad else ''}", f"{bad[0] if bad else ''} (path {list(bad[1]) if bad else ''})",
-              desc=f"next_flow (non-reuse): pop(0) only, every pop followed by an emptiness test, empty lists deleted ({len(pop_traces)} paths)")
-    # a served recording has a response: `while not ret.response` (no break) or an if-guard dominates `return ret`
-    served = [n for n in own_nodes(fn) if isinstance(n, ast.Return) and isinstance(n.value, ast.Name)]
-    ctx.require(served, "next_flow: no `return <name>` (shape not modelled)")
-    for r in served:
-        name = r.value.id
-        blk = r._parent
-        body = next((getattr(blk, f) for f in ("body", "orelse", "finalbody") if r in getattr(blk, f, [])), None)
-        ctx.require(body is not None, "next_flow: return not in a plain block")
-        before = body[: body.index(r)]
-        loops = [s for s in before if isinstance(s, ast.While) and norm(s.test) == f"not {name}.response" and not s.orelse and not any(isinstance(x, ast.Break) for x in ast.walk(s))]
-        ok = False
-        if loops:
-            after = before[before.index(loops[-1]) + 1:]
-            ok = not any(isinstance(x, ast.Name) and x.id == name and isinstance(x.ctx, ast.Store) for s in after for x in ast.walk(s))
-        elif isinstance(blk, ast.If) and r in blk.body and norm(blk.test) == f"{name}.response":
-            ok = True
-        ctx.check(ok, "R52.3", W, f"return {name} without a `{name}.response` loop / guard", "a recording without a response may be served (request() asserts, the client gets nothing)",
-                  desc=f"next_flow (non-reuse): `return {name}` only after `while not {name}.response`")
-
-
-def check_reindex(ctx):
-    add = ctx.func(F, "ServerPlayback.add_flows")
-    W = (F, "ServerPlayback.add_flows", add)
-    loops = [s for s in stmts_of(add) if isinstance(s, ast.For)]
-    ctx.require(len(loops) == 1 and isinstance(loops[0].target, ast.Name) and attr_chain(loops[0].iter) == params_of(add)[1], "add_flows: loop over the flows not found")
-    fv = loops[0].target.id
-    sd = [c for c in ast.walk(loops[0]) if isinstance(c, ast.Call) and attr_chain(c.func) == "self.flowmap.setdefault"]
-    ok = len(sd) == 1 and len(sd[0].args) == 2 and norm(sd[0].args[0]) == f"self._hash({fv})" and isinstance(sd[0].args[1], ast.List) and not sd[0].args[1].elts
-    lst = None
-    if ok and isinstance(sd[0]._parent, ast.Assign) and isinstance(sd[0]._parent.targets[0], ast.Name):
-        lst = sd[0]._parent.targets[0].id
-    apps = [c for c in ast.walk(loops[0]) if isinstance(c, ast.Call) and isinstance(c.func, ast.Attribute) and c.func.attr in ("append", "insert", "extend")
-            and ((lst and isinstance(c.func.value, ast.Name) and c.func.value.id == lst) or c.func.value is (sd[0] if sd else None))]
-    ok = ok and len(apps) == 1 and apps[0].func.attr == "append" and len(apps[0].args) == 1 and norm(apps[0].args[0]) == fv
-    ctx.check(ok, "R52.3", W, "add_flows: flowmap.setdefault(self._hash(f), []).append(f)", "recordings must be indexed under their key, appended in recording order",
-              desc="add_flows: setdefault(self._hash(f), []).append(f) for every HTTP flow")
-    guards = [n for n in ast.walk(loops[0]) if isinstance(n, ast.If)]
-    ok = all(norm(g.test) in (f"isinstance({fv}, http.HTTPFlow)",) for g in guards) and not any(isinstance(n, (ast.Break, ast.Continue, ast.Return)) for n in ast.walk(loops[0]))
-    ctx.check(ok, "R52.3", W, f"add_flows skips flows: {[norm(g.test) for g in guards]}", "recordings are lost when (re)indexing", desc="add_flows: only non-HTTP flows are skipped")
-    # load_flows: reset then add
-    lf = ctx.func(F, "ServerPlayback.load_flows")
-    body = [norm(s) for s in stmts_of(lf)]
-    p = params_of(lf)[1]
-    ctx.check(body == ["self.flowmap = {}", f"self.add_flows({p})"], "R52.3", (F, "ServerPlayback.load_flows", lf), f"load_flows: {'; '.join(body)}", "load_flows must replace the index by exactly the given flows",
-              desc="load_flows: flowmap = {} ; add_flows(flows)")
-    # recompute_hashes: eager snapshot of everything
-    rc = ctx.func(F, "ServerPlayback.recompute_hashes")
-    W = (F, "ServerPlayback.recompute_hashes", rc)
-    st = stmts_of(rc)
-    ctx.require(len(st) == 2 and isinstance(st[0], ast.Assign) and isinstance(st[0].targets[0], ast.Name) and isinstance(st[1], ast.Expr) and isinstance(st[1].value, ast.Call)
-                and call_name(st[1].value) == "self.load_flows" and norm(st[1].value.args[0]) == st[0].targets[0].id, f"recompute_hashes not modelled: {norm(rc)}")
-    snap = st[0].value
-    info = snapshot_shape(snap)
-    ctx.require(info is not None, f"recompute_hashes snapshot not modelled: {norm(snap)}")
-    ctx.check(info["eager"], "R52.3", W, f"lazy snapshot {norm(snap)}", "load_flows resets flowmap before the generator is consumed: every remaining recording is lost",
-              desc="recompute_hashes: snapshot is a list (taken before load_flows resets the map)")
-    ctx.check(not info["filtered"], "R52.3", W, f"filtered snapshot {norm(snap)}", "recordings are lost by the re-index", desc="recompute_hashes: every flow of every list, unfiltered")
-    # R52.4: recording order across keys
-    ctx.check(info["ordered"], "R52.4", W, f"flows re-added grouped by old key ({info['how']} over self.flowmap.values())",
-              "after a matching option changed, recordings whose keys become equal are served group by group (old key), not in recording order; "
-              "accepted: re-sorting by a kept recording index (sorted(..., key=...)) or re-adding from a kept global list",
-              desc="recompute_hashes: snapshot re-sorted by a recording index", snapshot=norm(snap))
-
-
-def snapshot_shape(snap):
-    """{'eager','filtered','ordered'} for the accepted ways of flattening flowmap, else None."""
-    ordered = False
-    if isinstance(snap, ast.Call) and call_name(snap) == "sorted" and len(snap.args) == 1 and kwarg(snap, "key") is not None:
-        inner = snapshot_shape(snap.args[0])
-        return None if inner is None else {**inner, "eager": True, "ordered": True}
-    if isinstance(snap, ast.Call) and call_name(snap) == "list" and len(snap.args) == 1:
-        inner = snapshot_shape(snap.args[0])
-        return None if inner is None else {**inner, "eager": True}
-    values = lambda e: isinstance(e, ast.Call) and attr_chain(e.func) == "self.flowmap.values" and not e.args
-    if isinstance(snap, (ast.ListComp, ast.GeneratorExp)):
-        gens = snap.generators
-        shape = (len(gens) == 2 and values(gens[0].iter) and isinstance(gens[0].target, ast.Name)
-                 and isinstance(gens[1].iter, ast.Name) and gens[1].iter.id == gens[0].target.id and isinstance(gens[1].target, ast.Name)
-                 and isinstance(snap.elt, ast.Name) and snap.elt.id == gens[1].target.id)
-        if not shape:
-            return None
-        return {"eager": isinstance(snap, ast.ListComp), "filtered": bool(gens[0].ifs or gens[1].ifs), "ordered": ordered, "how": "comprehension"}
-    if isinstance(snap, ast.Call) and call_name(snap) == "sum" and len(snap.args) == 2 and values(snap.args[0]) and isinstance(snap.args[1], ast.List) and not snap.args[1].elts:
-        return {"eager": True, "filtered": False, "ordered": False, "how": "sum"}
-    if isinstance(snap, ast.Call) and call_name(snap) in ("itertools.chain.from_iterable", "chain.from_iterable") and len(snap.args) == 1 and values(snap.args[0]):
-        return {"eager": False, "filtered": False, "ordered": False, "how": "chain"}
-    return None
-
-
-class RequestSpec(GenericSpec):
-    def __init__(self, fparam, rvar):
-        super().__init__(record_conds=False)
-        self.f, self.rvar = fparam, rvar
-        self.resp_src = {}
-
-    def value(self, expr, st, depth):
-        ch = attr_chain(expr)
-        if ch in (OPT + "server_replay_kill_extra", OPT + "server_replay_extra"):
-            return st.get("$" + ch[len(OPT):])
-        if ch == "self.flowmap":
-            return C(True)
-        if isinstance(expr, ast.Call) and call_name(expr) == "self.next_flow":
-            return st.get("$rflow")
-        return super().value(expr, st, depth)
-
-    def events(self, node, st):
-        out = []
-        for n in eval_order(node):
-            if isinstance(n, ast.Call) and call_name(n) == f"{self.f}.kill":
-                out.append(("kill",))
-        if isinstance(node, ast.Assign) and len(node.targets) == 1:
-            t = attr_chain(node.targets[0])
-            v = node.value
-            if t == f"{self.f}.response":
-                out.append(("response", self.kind(v)))
-            elif t == f"{self.f}.is_replay":
-                out.append(("is_replay", v.value if isinstance(v, ast.Constant) else norm(v)))
-            elif isinstance(node.targets[0], ast.Name):
-                self.resp_src[node.targets[0].id] = self.kind(v)
-        return out
-
-    def kind(self, v):
-        if isinstance(v, ast.Name) and v.id in self.resp_src:
-            return self.resp_src[v.id]
-        t = norm(v)
-        if t in (f"{self.rvar}.response.copy()", f"{self.rvar}.response"):
-            return "recorded"
-        if isinstance(v, ast.Call) and call_name(v) == "http.Response.make" and v.args and norm(v.args[0]) == f"int({OPT}server_replay_extra)":
-            return "status"
-        return "other:" + t
-
-
-def check_request(ctx):
-    fn = ctx.func(F, "ServerPlayback.request")
-    W = (F, "ServerPlayback.request", fn)
-    fparam = params_of(fn)[1]
-    rv = [n.targets[0].id for n in own_nodes(fn) if isinstance(n, ast.Assign) and isinstance(n.value, ast.Call) and call_name(n.value) == "self.next_flow" and isinstance(n.targets[0], ast.Name)]
-    ctx.require(len(rv) == 1, "request: `rflow = self.next_flow(f)` not found")
-    nf = [n for n in own_nodes(fn) if isinstance(n, ast.Call) and call_name(n) == "self.next_flow"]
-    ctx.require(len(nf) == 1 and norm(nf[0].args[0]) == fparam, "request: next_flow is not called exactly once with the request flow")
-    bad = []
-    for hit, kill_extra, extra in itertools.product((True, False), (False, True), ("forward", "kill", "204", "404")):
-        sp = RequestSpec(fparam, rv[0])
-        eng = StrictEngine(sp, lambda e: attr_chain(e) in (OPT + "server_replay_refresh", f"{rv[0]}.response"), "request")
-        trs = eng.terminal(fn, {"$rflow": C(True) if hit else C(None), "$server_replay_kill_extra": C(kill_extra), "$server_replay_extra": C(extra)})
-        ctx.cells += 1
-        ctx.paths += len(trs)
-        if hit:
-            want = {("response", "recorded"), ("is_replay", "response")}
-        elif kill_extra or extra == "kill":
-            want = {("kill",)}
-        elif extra != "forward":
-            want = {("response", "status"), ("is_replay", "response")}
-        else:
-            want = set()
-        for tr, how, _ in trs:
-            got = set(tr)
-            if got != want or how != "return":
-                bad.append((f"recorded response available={hit}, kill_extra={kill_extra}, extra={extra!r}", sorted(want), sorted(got)))
-    for cell, want, got in bad[:4]:
-        ctx.fail("R52.3", W, f"request: {cell}: does {got}, expected {want}", "unmatched / matched requests are not handled as the option table says")
-    if not bad:
-        ctx.ok("R52.3", "request: 16 cells (recorded -> copy + is_replay='response'; kill; status -> Response.make(int(extra)); forward -> untouched)")
-
-
-# ---------------------------------------------------------------------------------------------------
-# R52.3 / R52.4 by interpretation: histories of the addon's own methods against the reference model of the property
-
-
-def _replay_world(ctx, reuse, nopop):
-    """An interpreter (pyint) over serverplayback.py in which ``self._hash`` is the abstract key function `flow -> flow.keys[<active option
-    configuration>]` (key composition itself is R52.2's business), ``ctx.options`` carries the two serving options and the UI update hook is a
-    no-op.  -> (interp, addon record, config cell)"""
-    from ..pyint import Interp
-    from ..pyint import Raised
-    from ..pyint import Rec
-
-    class ReplayInterp(Interp):
-        def builtin(self, name, args, kwargs, e, env, mod, depth):
-            if name == "next" and args and isinstance(args[0], list):  # generator expressions are materialised by pyint
-                args = [iter(args[0])] + list(args[1:])
-            return Interp.builtin(self, name, args, kwargs, e, env, mod, depth)
-
-    cfg = {"mode": "A"}
-    it = ReplayInterp(ctx.model, externals={
-        "self._hash": lambda f: f.keys[cfg["mode"]],
-        "ctx.master.addons.trigger": lambda *a, **k: None,
-        "hooks.UpdateHook": lambda *a, **k: None,
-    })
-    opts = Rec("Options", server_replay_reuse=reuse, server_replay_nopop=nopop, server_replay_kill_extra=False, server_replay_extra="forward", server_replay_refresh=False)
-    it.overrides[(F, "ctx")] = Rec("ctx", options=opts)
-    addon = Rec("ServerPlayback", _impl=(F, "ServerPlayback"), flowmap={}, configured=True)
-    return it, addon, cfg
-
-
-def _flows(spec):
-    """[(keyA, keyB, has_response)] -> recordings as abstract HTTPFlow records, numbered in recording order."""
-    from ..pyint import Rec
-
-    return [Rec("HTTPFlow", _bases=("Flow",), _name=f"rec{i}", idx=i, keys={"A": a, "B": b}, response=(Rec("Response", _name=f"resp{i}") if r else None), request=Rec("Request"))
-            for i, (a, b, r) in enumerate(spec)]
-
-
-def _request(key):
-    from ..pyint import Rec
-
-    return Rec("HTTPFlow", _bases=("Flow",), _name=f"req:{key}", idx=None, keys={"A": key, "B": key}, response=None, request=Rec("Request"))
+    def request(self, mode, key):
+        if self.strict(mode):
+            return self.make(key)
+        s = self.make("x")
+        return s if key == "p" else _spec(s, path="/p/" + key)
 
 
 class _Ref:
@@ -671,6 +652,55 @@ class _Ref:
         return None
 
 
+class History:
+    """An addon in a world, the recordings of ``spec`` = [(key A, key B, has response)] and the reference next to it."""
+
+    def __init__(self, ses, scenario, spec, reuse=False, nopop=False, **opts):
+        self.ses, self.sc, self.spec = ses, scenario, spec
+        self.w = ses.world(reuse=reuse, nopop=nopop, **{**scenario.A, **opts})
+        self.addon = ses.addon(self.w)
+        self.ref = _Ref(spec, reuse or nopop)
+        self.mode = "A"
+
+    def flows(self):
+        return [_flow_rec(self.sc.recording(a, b), idx=i, response=r) for i, (a, b, r) in enumerate(self.spec)]
+
+    def call(self, meth, *args):
+        try:
+            return ("ok", self.w.method(self.addon, meth, *args))
+        except Raised as r:
+            return ("raise", r.name)
+
+    def load(self, extra=()):
+        m = self.ses.loader
+        return self.call(m, self.flows() + list(extra))
+
+    def switch(self):
+        self.mode = self.ref.mode = "B"
+        self.w.set_options(**{P + k: v for k, v in self.sc.B.items()})
+
+    def request_flow(self, key):
+        return _flow_rec(self.sc.request(self.mode, key), name=f"req:{key}")
+
+    def next_flow(self, key):
+        return idx_of(self.call(self.ses.servefn, self.request_flow(key)))
+
+    def close(self):
+        self.ses.done(self.w)
+
+    def describe(self, keys="A"):
+        if keys == "A":
+            return "[" + ", ".join(f"#{i}:{a}" + ("" if r else " (no response)") for i, (a, _, r) in enumerate(self.spec)) + "]"
+        return "[" + ", ".join(f"#{i}:{a}->{b}" + ("" if r else " (no response)") for i, (a, b, r) in enumerate(self.spec)) + "]"
+
+
+def idx_of(res):
+    if res[0] == "raise":
+        return "raises " + res[1]
+    v = res[1]
+    return None if v is None else getattr(v, "idx", "?")
+
+
 SERVE_SETS = {
     "complete recordings, two keys": [("a", "a", True), ("a", "a", True), ("b", "b", True)],
     "response-less recording before complete ones": [("a", "a", False), ("a", "a", True), ("a", "a", True)],
@@ -690,105 +720,275 @@ REINDEX_SETS = {
 }
 
 
-def check_histories(ctx):
-    """-> verdict of the cross-group order after a re-index (None = in recording order, else a witness text); used for R52.4 only when the
-    structural reading of recompute_hashes is not available."""
-    from ..pyint import Raised
+def serving_modes(ses):
+    return [(False, False), (True, False)] + ([(False, True)] if ses.has_option("nopop") else [])
 
-    nf = ctx.func(F, "ServerPlayback.next_flow")
-    rc = ctx.func(F, "ServerPlayback.recompute_hashes")
-    for q in ("load_flows", "add_flows"):
-        ctx.func(F, "ServerPlayback." + q)
 
-    def call(it, addon, meth, *args):
-        try:
-            return ("ok", it.method(addon, meth, *args))
-        except Raised as r:
-            return ("raise", r.name)
-
-    def idx(res):
-        if res[0] == "raise":
-            return "raises " + res[1]
-        v = res[1]
-        return None if v is None else getattr(v, "idx", "?")
-
-    # (a) serving histories
+def check_serving(ctx, ses):
+    """next_flow on request histories. -> True when the serving discipline holds (the re-index histories observe through it)."""
+    nf = ctx.func(F, f"{CLS}.{ses.servefn}")
     bad = None
     n = 0
-    for (reuse, nopop), (name, spec), reqs in itertools.product(((False, False), (True, False), (False, True)), SERVE_SETS.items(), SERVE_REQUESTS):
-        it, addon, cfg = _replay_world(ctx, reuse, nopop)
-        ref = _Ref(spec, reuse or nopop)
-        r = call(it, addon, "load_flows", _flows(spec) + [_tcp_flow()])
+    for (reuse, nopop), (name, spec), reqs in itertools.product(serving_modes(ses), SERVE_SETS.items(), SERVE_REQUESTS):
+        h = History(ses, Scenario(), spec, reuse, nopop)
+        r = h.load([_tcp_flow()])
         ctx.cells += 1
         n += 1
         got, want = [], []
         if r[0] == "raise":
-            got = ["load_flows raises " + r[1]]
+            got = [f"{ses.loader} raises " + r[1]]
         else:
             for k in reqs:
-                got.append(idx(call(it, addon, "next_flow", _request(k))))
-                want.append(ref.serve(k))
+                got.append(h.next_flow(k))
+                want.append(h.ref.serve(k))
                 if isinstance(got[-1], str):
                     break
+        h.close()
         if got != want[: len(got)] or len(got) != len(reqs):
-            bad = bad or (f"recordings [{', '.join(f'#{i}:{a}' + ('' if r_ else ' (no response)') for i, (a, _, r_) in enumerate(spec))}] ({name}), server_replay_reuse={reuse} server_replay_nopop={nopop}, "
-                          f"requests {reqs}: served {got}, the property asks for {want}")
+            bad = bad or (f"recordings {h.describe()} ({name}), server_replay_reuse={reuse} server_replay_nopop={nopop}, requests {reqs}: served {got}, the property asks for {want}")
     mode = "reuse" if bad and ("reuse=True" in bad or "nopop=True" in bad) else "non-reuse"
-    ctx.check(bad is None, "R52.3", (F, "ServerPlayback.next_flow", nf), f"next_flow histories ({mode}): recordings not served first-unserved-with-a-response per key" if bad else "next_flow histories",
-              f"{bad} - a recording is served twice / skipped / out of recording order, or the lookup raises", desc=f"next_flow interpreted on {n} histories (6 recorded sets x 5 request sequences x reuse/nopop): "
+    ctx.check(bad is None, "R52.3", (F, f"{CLS}.{ses.servefn}", nf), f"{ses.servefn} histories ({mode}): recordings not served first-unserved-with-a-response per key" if bad else f"{ses.servefn} histories",
+              f"{bad} - a recording is served twice / skipped / out of recording order, or the lookup raises", desc=f"{ses.servefn} interpreted on {n} histories (6 recorded sets x 5 request sequences x reuse/nopop): "
               "every request gets the first not-yet-served recording of its key that has a response (reuse: the first one, every time)")
+    return bad is None
 
-    # (b) re-index histories: load under option configuration A, optionally serve one request, switch to B, recompute_hashes, then drain every new key
-    if bad is not None:
-        ctx.note("recompute_hashes histories not evaluated: they are observed through next_flow, which itself violates the serving discipline")
-        return None
-    order_wit = None
+
+def drain(h, pre_n, name):
+    """After a re-index: request every new key until it is exhausted. -> (hard violation | None, order witness | None, F-C52 pattern?)"""
+    ref, spec = h.ref, h.spec
+    left = [rec for rec in ref.recs if rec[3] and rec[0] not in ref.served]
+    rank = {}
+    for rec in ref.recs:
+        rank.setdefault(rec[1], rec[0])  # position of an old key's list in flowmap: where its first recording was added
+    bad = wit = None
+    grouped_only = True
+    for kb in sorted({rec[2] for rec in ref.recs} | {"unknown"}):
+        exp = [rec[0] for rec in left if rec[2] == kb]
+        got = [h.next_flow(kb) for _ in range(len(exp) + 1)]
+        desc = (f"recordings {h.describe('AB')} (old key->new key; {name}; {h.sc.name}), {pre_n} served before the option change: "
+                f"requests for new key {kb!r} get {got}, the remaining recordings of that key are {exp}")
+        if sorted(map(str, got[:-1])) != sorted(map(str, exp)) or got[-1] is not None:
+            bad = bad or desc
+        elif got[:-1] != exp:
+            same_old = all(spec[a][0] == spec[b][0] for a in exp for b in exp)
+            if same_old or any(got[:-1].index(a) > got[:-1].index(b) for a in exp for b in exp if a < b and spec[a][0] == spec[b][0]):
+                bad = bad or desc + " (recordings of one old key out of order)"
+            else:
+                wit = wit or desc
+                if got[:-1] != sorted(exp, key=lambda i: (rank[spec[i][0]], i)):
+                    grouped_only = False
+    return bad, wit, grouped_only
+
+
+def reindex_history(ses, sc, spec, pre, name, trigger, has_count):
+    """load under A, serve ``pre``, switch to B, ``trigger`` the re-index, drain. -> (violation, order witness, grouped-by-old-key?)"""
+    h = History(ses, sc, spec)
+    r = h.load()
+    for k in pre:
+        if r[0] == "ok":
+            r = h.call(ses.servefn, h.request_flow(k))
+            h.ref.serve(k)
+    bad = None
+    if r[0] == "ok":
+        before = h.call("count") if has_count else None
+        h.switch()
+        r = trigger(h)
+        after = h.call("count") if has_count and r[0] == "ok" else None
+        if r[0] == "ok" and before != after:
+            bad = f"{name}: replay.server.count is {before[1]} before and {after[1]} after the re-index (recordings lost or duplicated)"
+    if r[0] == "raise":
+        h.close()
+        return f"{name} ({sc.name}): raises {r[1]}", None, True
+    b2, wit, grouped = drain(h, len(pre), name)
+    h.close()
+    return bad or b2, wit, grouped
+
+
+def check_reindex(ctx, ses):
+    """recompute_hashes on option-change histories (R52.3: nothing lost / duplicated / misfiled; R52.4: recording order across old keys)."""
+    if ctx.model.has(F, f"{CLS}.recompute_hashes"):
+        rc = ctx.func(F, f"{CLS}.recompute_hashes")
+        trigger = lambda h: h.call("recompute_hashes")
+    else:  # the mechanism under another name: reached the way the addon reaches it, by an update of the changed options
+        rc = ctx.func(F, f"{CLS}.configure")
+        trigger = lambda h: h.call("configure", {P + k for k in h.sc.B})
+        ctx.note("recompute_hashes not found: the re-index is triggered through configure(updated)")
+    W = (F, f"{CLS}.recompute_hashes", rc)
+    has_count = ctx.model.has(F, f"{CLS}.count")
+    bad = wit = None
+    grouped = True
     n = 0
-    has_count = ctx.model.has(F, "ServerPlayback.count")
     for (name, spec), pre in itertools.product(REINDEX_SETS.items(), ([], ["x"], ["y", "x"], ["p"])):
-        it, addon, cfg = _replay_world(ctx, False, False)
-        ref = _Ref(spec, False)
         ctx.cells += 1
         n += 1
-        r = call(it, addon, "load_flows", _flows(spec))
-        for k in pre:
-            if r[0] == "ok":
-                r = call(it, addon, "next_flow", _request(k))
-                ref.serve(k)
-        if r[0] == "ok":
-            before = call(it, addon, "count") if has_count else None
-            cfg["mode"] = ref.mode = "B"
-            r = call(it, addon, "recompute_hashes")
-            after = call(it, addon, "count") if has_count and r[0] == "ok" else None
-            if before != after:
-                bad = bad or f"{name}: replay.server.count is {before[1]} before and {after[1]} after the re-index (recordings lost or duplicated)"
-        if r[0] == "raise":
-            bad = bad or f"{name}: raises {r[1]}"
-            continue
-        left = [rec for rec in ref.recs if rec[3] and rec[0] not in ref.served]
-        for kb in sorted({rec[2] for rec in ref.recs} | {"unknown"}):
-            exp = [rec[0] for rec in left if rec[2] == kb]
-            got = [idx(call(it, addon, "next_flow", _request(kb))) for _ in range(len(exp) + 1)]
-            desc = (f"recordings [{', '.join(f'#{i}:{a}->{b}' + ('' if r_ else ' (no response)') for i, (a, b, r_) in enumerate(spec))}] (old key->new key; {name}), {len(pre)} served before the option change: "
-                    f"requests for new key {kb!r} get {got}, the remaining recordings of that key are {exp}")
-            if sorted(map(str, got[:-1])) != sorted(map(str, exp)) or got[-1] is not None:
-                bad = bad or desc
-            elif got[:-1] != exp:
-                same_old = all(spec[a][0] == spec[b][0] for a in exp for b in exp)
-                if same_old or any(got[:-1].index(a) > got[:-1].index(b) for a in exp for b in exp if a < b and spec[a][0] == spec[b][0]):
-                    bad = bad or desc + " (recordings of one old key out of order)"
-                else:
-                    order_wit = order_wit or desc
-    ctx.check(bad is None, "R52.3", (F, "ServerPlayback.recompute_hashes", rc), "recompute_hashes histories: remaining recordings not re-indexed under their own new keys" if bad else "recompute_hashes histories",
+        b, w_, g = reindex_history(ses, Scenario(), spec, pre, name, trigger, has_count)
+        bad, wit, grouped = bad or b, wit or w_, grouped and g
+    ctx.check(bad is None, "R52.3", W, "recompute_hashes histories: remaining recordings not re-indexed under their own new keys" if bad else "recompute_hashes histories",
               f"{bad} - after a matching option changed a recording is lost, duplicated, or answers a request whose key differs from its own", desc=f"recompute_hashes interpreted on {n} histories (6 recorded sets: keys "
               "split / merge / cross / swap; 0-2 served before): every remaining recording is served exactly once, and only for its own new key")
-    return order_wit
+    if bad is not None:
+        ctx.note("R52.4 not evaluated: the re-index loses / duplicates / misfiles recordings (R52.3)")
+        ctx.instance("R52.4", "not evaluated (R52.3 violated by the re-index)")
+        return
+    if wit is not None and grouped:
+        ctx.fail("R52.4", W, F_C52, "after a matching option changed, recordings whose keys become equal are served group by group (old key), not in recording order: " + wit +
+                 "; accepted: re-adding in recording order (kept index / kept global list)", witness=wit)
+    else:
+        ctx.check(wit is None, "R52.4", W, "recordings that share a new key are served neither in recording order nor grouped by old key", f"{wit}",
+                  desc="recompute_hashes histories: recordings whose keys become equal are served in recording order")
 
 
-def _tcp_flow():
-    from ..pyint import Rec
+def check_configure(ctx, ses, listed):
+    """configure(updated) with a HASH_OPTIONS member in ``updated`` re-indexes; an unrelated update loses nothing."""
+    cfg = ctx.func(F, f"{CLS}.configure")
+    W = (F, f"{CLS}.configure", cfg)
+    has_count = ctx.model.has(F, f"{CLS}.count")
+    widen = [("x", "p", True), ("y", "p", True), ("x", "p", False), ("y", "p", True)]
+    narrow = [("p", "x", True), ("p", "y", True), ("p", "x", True)]
+    bad = None
+    n = 0
+    modelled = [o[len(P):] for o in listed if o.startswith(P) and o[len(P):] in OptionScenario.COMPONENTS]
+    for o in modelled:
+        for widening, pre in ((True, []), (True, ["x"]), (False, []), (False, ["p"])):
+            for updated in ({P + o}, {P + o, P + "refresh", "anticache"})[: 2 if widening and not pre else 1]:
+                ctx.cells += 1
+                n += 1
+                sc = OptionScenario(o, widening)
+                b, _, _ = reindex_history(ses, sc, widen if widening else narrow, pre, f"configure(updated={sorted(updated)})", lambda h: h.call("configure", set(updated)), has_count)
+                bad = bad or b
+    ctx.require(modelled, "no member of HASH_OPTIONS is one of the modelled matching options")
+    ctx.check(bad is None, "R52.1", W, "configure: recompute_hashes() when a HASH_OPTIONS member is updated",
+              f"a changed matching option leaves the recordings indexed under the old keys: {bad}", desc=f"configure interpreted on {n} option-change histories ({len(modelled)} matching options, widening and narrowing, "
+              "0-1 served before): every remaining recording is served for its new key afterwards")
+    # an update of an unrelated option keeps every recording where it is
+    bad = None
+    for updated in (set(), {P + "refresh"}, {"anticache", "server_replay_extra"}):
+        ctx.cells += 1
+        h = History(ses, Scenario(), SERVE_SETS["interleaved keys with gaps"])
+        r = h.load()
+        if r[0] == "ok":
+            r = h.call("configure", set(updated))
+        if r[0] == "raise":
+            bad = bad or f"configure(updated={sorted(updated)}) raises {r[1]}"
+        else:
+            for k in ["a", "b", "a", "b", "a", "c"]:
+                got, want = h.next_flow(k), h.ref.serve(k)
+                if got != want:
+                    bad = bad or f"after configure(updated={sorted(updated)}) a request for key {k!r} gets {got}, the property asks for {want}"
+        h.close()
+    ctx.check(bad is None, "R52.1", W, "configure: recordings survive an update of unrelated options", f"{bad}", desc="configure with no matching option in `updated` keeps every recording")
 
-    return Rec("TCPFlow", _bases=("Flow",), _name="tcp", idx="tcp", keys={"A": "a", "B": "a"}, response=None)
+
+# ---------------------------------------------------------------------------------------------------
+# R52.3: the request hook
+
+
+def outcome(f):
+    resp, killed, mark = f.response, f.killed, f.is_replay
+    if killed:
+        return ("kill",) if resp is None else ("kill and response",)
+    if resp is None:
+        return ("forward",) if mark is None else ("forward, marked is_replay",)
+    if not isinstance(resp, Rec):
+        return ("other response", repr(resp))
+    kind = ("status", resp.__dict__.get("made")) if resp.__dict__.get("made") is not None else ("recorded", resp.__dict__.get("origin", "?"))
+    return kind if mark == "response" else kind + (f"is_replay={mark!r}",)
+
+
+def expected_outcome(idx, kill_extra, extra):
+    if idx is not None:
+        return ("recorded", idx)
+    if kill_extra or extra == "kill":
+        return ("kill",)
+    if extra != "forward":
+        return ("status", int(extra))
+    return ("forward",)
+
+
+def check_request(ctx, ses):
+    fn = ctx.func(F, f"{CLS}.request")
+    W = (F, f"{CLS}.request", fn)
+    keeper = [("keep", "keep", True)]
+    bad = []
+    n = 0
+
+    def run(spec, reqs, reuse, kill_extra, extra, refresh, what):
+        opts = {"extra": extra, "refresh": refresh}
+        if ses.has_option("kill_extra"):
+            opts["kill_extra"] = kill_extra
+        h = History(ses, Scenario(), spec, reuse, **opts)
+        r = h.load()
+        ctx.require(r[0] == "ok", f"request histories: {ses.loader} raises {r[1]}")
+        for pos, k in enumerate(reqs, 1):
+            f = h.request_flow(k)
+            res = h.call("request", f)
+            got = ("raises " + res[1],) if res[0] == "raise" else outcome(f)
+            want = expected_outcome(h.ref.serve(k) if spec else None, kill_extra and bool(spec), extra if spec else "forward")
+            if got != want:
+                kind = "recording available" if want[0] == "recorded" else "nothing loaded" if not spec else "no recording for the request"
+                bad.append((f"{kind}, reuse={reuse}, kill_extra={kill_extra}, extra={extra!r}", want, got, f"recordings {h.describe()} ({what}), requests {reqs}: request #{pos} for key {k!r}"))
+                break
+        h.close()
+
+    # the option table: hits and misses against a set that keeps the addon active throughout
+    table = SERVE_SETS["interleaved keys with gaps"] + keeper
+    for kill_extra, extra, refresh in itertools.product((False, True) if ses.has_option("kill_extra") else (False,), ("forward", "kill", "204", "404"), (False, True)):
+        ctx.cells += 2
+        n += 2
+        run(table, ["a", "c", "b", "a", "c", "a", "b", "b"], False, kill_extra, extra, refresh, f"option table, refresh={refresh}")
+    # serving discipline observed at the hook
+    for (name, spec), reqs, reuse in itertools.product(SERVE_SETS.items(), SERVE_REQUESTS[1:4], (False, True)):
+        ctx.cells += 1
+        run(spec + keeper, reqs, reuse, False, "404", True, name)
+    # nothing loaded: replay is not active, the request is left alone
+    for kill_extra, extra in ((False, "kill"), (False, "404"), (True, "forward")):
+        ctx.cells += 1
+        run([], ["a"], False, kill_extra, extra, True, "nothing loaded")
+    for cell, want, got, hist in bad[:4]:
+        ctx.fail("R52.3", W, f"request: {cell}: does {list(got)}, expected {list(want)}", f"unmatched / matched requests are not handled as the option table says ({hist})")
+    if not bad:
+        ctx.ok("R52.3", f"request: {n} cells (recorded -> response of the recording + is_replay='response'; kill; status -> Response.make(int(extra)); forward -> untouched), "
+               "serving discipline observed at the hook, inactive while nothing is loaded")
+
+
+# ---------------------------------------------------------------------------------------------------
+
+
+def discover(ctx, ses):
+    """The mechanisms by what they do: the key function is the addon method whose result for a recording is that recording's key in the
+    index; the serving function is the one the request hook calls with the request and that returns the recording.  (_hash / next_flow
+    when the probe does not find them.)"""
+    ses.keyfn, ses.servefn = "_hash", "next_flow"
+    w = ses.world()
+    w.log = []
+    rec, req = _flow_rec(BASE, idx=0, response=True), _flow_rec(BASE, name="request")
+    try:
+        addon = ses.addon(w)
+        w.method(addon, ses.loader, [rec])
+        keys = [k for v in addon.__dict__.values() if isinstance(v, dict) for k in v]
+        hits = [name for name, args, res in w.log if args and args[0] is rec and isinstance(res, (bytes, str, int, tuple)) and res in keys]
+        if hits:
+            ses.keyfn = hits[-1]
+        w.log.clear()
+        w.method(addon, "request", req)
+        hits = [name for name, args, res in w.log if args and args[0] is req and res is rec]
+        if hits:
+            ses.servefn = hits[-1]
+    except (AnalysisError, Raised):
+        pass
+    ses.done(w)
+
+
+def find_loader(ctx, ses):
+    """The method that replaces the index by the given flows: the ``replay.server`` command (load_flows)."""
+    for st in ses.cls.body:
+        if isinstance(st, ast.FunctionDef):
+            for d in st.decorator_list:
+                if isinstance(d, ast.Call) and last_attr(d.func) == "command" and d.args and isinstance(d.args[0], ast.Constant) and d.args[0].value == "replay.server":
+                    ctx.func(F, f"{CLS}.{st.name}")
+                    return st.name
+    ctx.func(F, f"{CLS}.load_flows")
+    return "load_flows"
 
 
 def check(ctx):
@@ -796,34 +996,30 @@ def check(ctx):
     ctx.rule("R52.2", "key composition per option cell: scheme/method/path, content or filtered form fields, host, port, non-ignored query pairs, configured headers")
     ctx.rule("R52.4", "recompute_hashes re-adds the remaining recordings in an order that preserves recording order across keys (kept global list / "
              "sequence index / sort by a recording index); flattening flowmap.values() group by group is the violation")
-    ctx.rule("R52.3", "reuse never consumes and serves the first recording with a response; non-reuse pops from the front, never serves a response-less recording, "
-             "deletes empty lists; re-index keeps every remaining recording; request() follows the option table")
-    check_options(ctx)
-    check_key(ctx)
-    # serving discipline and re-index: decided by interpreting the addon's methods on histories; the structural path rules refine the verdict
-    # (and carry the known finding of R52.4) as long as the code has a shape they model
-    order_wit = check_histories(ctx)
-    structural = 0
-    try:
-        check_next_flow(ctx)
-        structural += 1
-    except AnalysisError as e:
-        ctx.note(f"R52.3 structural path rules on next_flow not applicable ({e}); the interpreted histories are the decision")
-    try:
-        check_reindex(ctx)
-        structural += 1
-    except AnalysisError as e:
-        ctx.note(f"R52.3/R52.4 structural reading of add_flows / load_flows / recompute_hashes not applicable ({e}); the interpreted histories are the decision")
-        rc = ctx.func(F, "ServerPlayback.recompute_hashes")
-        ctx.check(order_wit is None, "R52.4", (F, "ServerPlayback.recompute_hashes", rc), "recordings whose keys become equal are not served in recording order after a re-index",
-                  f"{order_wit}", desc="recompute_hashes histories: merged recordings are served in recording order")
-    check_request(ctx)
-    ctx.assume("loops unrolled once; ctx.options values are stable during one hook invocation")
-    ctx.assume("histories: _hash is an arbitrary key function of the flow and the matching options (its composition is R52.2); recorded sets and request sequences are the representatives listed in SERVE_SETS / SERVE_REQUESTS / REINDEX_SETS")
-    if not [f for f in ctx.findings if f.rule != "R52.4"]:
-        ctx.expect_instances("R52.1", 6 + 2)
-        ctx.expect_instances("R52.2", 5 + 4)
-        ctx.expect_instances("R52.3", 2 + 1 + (4 if structural >= 1 else 0) + (5 if structural == 2 else 0))
+    ctx.rule("R52.3", "reuse never consumes and serves the first recording with a response; non-reuse serves from the front at most once, never a response-less recording; "
+             "re-index keeps every remaining recording under its own new key; request() follows the option table")
+    ses = _Session(ctx)
+    ses.loader = find_loader(ctx, ses)
+    discover(ctx, ses)
+    for q in (ses.keyfn, ses.servefn, "request", "configure"):
+        ctx.func(F, f"{CLS}.{q}")
+    ctx.guard(check_key, ctx, ses)
+    listed = ctx.guard(check_options, ctx, ses)
+    serving_ok = ctx.guard(check_serving, ctx, ses)
+    if serving_ok:
+        ctx.guard(check_reindex, ctx, ses)
+        if listed:
+            ctx.guard(check_configure, ctx, ses, listed)
+    elif serving_ok is False:
+        ctx.note("re-index histories (recompute_hashes, configure) not evaluated: they are observed through next_flow, which itself violates the serving discipline")
+    ctx.guard(check_request, ctx, ses)
+    ctx.guard(check_registration, ctx, ses)
+    ctx.trust("urllib.parse, hashlib (run natively on concrete strings); model of MultiDictView / Headers.get; flow file reading and http.Response.make stubbed")
+    ctx.assume("recorded sets, request sequences and requests are the representatives listed in SERVE_SETS / SERVE_REQUESTS / REINDEX_SETS / VARIANTS; ctx.options values are stable during one hook invocation")
+    if not [f for f in ctx.findings if f.rule != "R52.4"] and not ctx.deferred:
+        ctx.expect_instances("R52.1", 6 + 2 + 1)
+        ctx.expect_instances("R52.2", len(VARIANTS))
+        ctx.expect_instances("R52.3", 3)
     ctx.expect_instances("R52.4", 1)
 
 
@@ -831,15 +1027,20 @@ MUTANTS = [
     Mutant("option-missing-from-hash-options", F, "    \"server_replay_ignore_port\",\n    \"server_replay_use_headers\",\n]", "    \"server_replay_use_headers\",\n]", "R52.1"),
     Mutant("hash-options-lists-unread-option", F, "    \"server_replay_use_headers\",\n]", "    \"server_replay_use_headers\",\n    \"server_replay_refresh\",\n]", "R52.1"),
     Mutant("configure-does-not-reindex", F, "        if any(option in updated for option in HASH_OPTIONS):\n            self.recompute_hashes()\n", "", "R52.1"),
+    Mutant("configure-reindexes-only-for-the-first-option", F, "        if any(option in updated for option in HASH_OPTIONS):", "        if HASH_OPTIONS[0] in updated:", "R52.1"),
+    Mutant("configure-returns-before-the-reindex", F, "        if not self.configured and ctx.options.server_replay:", "        if self.configured or not ctx.options.server_replay:\n            return\n        if True:", "R52.1"),
+    Mutant("option-not-registered", F, "        loader.add_option(\n            \"server_replay_ignore_port\",", "        loader.add_option(\n            \"server_replay_ignore_ports\",", "R52.1"),
     Mutant("key-without-method", F, "key: list[Any] = [str(r.scheme), str(r.method), str(path)]", "key: list[Any] = [str(r.scheme), str(path)]", "R52.2"),
     Mutant("ignore-host-inverted", F, "        if not ctx.options.server_replay_ignore_host:", "        if ctx.options.server_replay_ignore_host:", "R52.2"),
     Mutant("port-always-in-key", F, "        if not ctx.options.server_replay_ignore_port:\n            key.append(r.port)", "        key.append(r.port)", "R52.2"),
     Mutant("content-ignored-when-payload-params-set", F, "            else:\n                key.append(str(r.raw_content))", "            elif not ctx.options.server_replay_ignore_payload_params:\n                key.append(str(r.raw_content))", "R52.2"),
     Mutant("urlencoded-fields-unfiltered", F, "                    if k not in ctx.options.server_replay_ignore_payload_params\n", "", "R52.2"),
+    Mutant("form-fields-without-repeats", F, "for k, v in r.urlencoded_form.items(multi=True)", "for k, v in r.urlencoded_form.items()", "R52.2"),
     Mutant("query-values-not-in-key", F, "            key.append(p[0])\n            key.append(p[1])", "            key.append(p[0])", "R52.2"),
     Mutant("ignored-params-kept", F, "            if p[0] not in ignore_params:\n                filtered.append(p)", "            filtered.append(p)", "R52.2"),
     Mutant("blank-query-values-dropped", F, "urllib.parse.parse_qsl(query, keep_blank_values=True)", "urllib.parse.parse_qsl(query)", "R52.2"),
     Mutant("headers-not-appended", F, "            key.append(headers)\n", "", "R52.2"),
+    Mutant("header-names-only", F, "                headers.append((i, v))", "                headers.append(i)", "R52.2"),
     Mutant("reuse-consumes", F, "                return next(\n                    (flow for flow in self.flowmap[hash] if flow.response), None\n                )",
            "                self.flowmap[hash].append(self.flowmap[hash].pop(0))\n                return next(\n                    (flow for flow in self.flowmap[hash] if flow.response), None\n                )", "R52.3"),
     Mutant("reuse-serves-responseless", F, "(flow for flow in self.flowmap[hash] if flow.response), None", "(flow for flow in self.flowmap[hash]), None", "R52.3"),
@@ -886,10 +1087,14 @@ MUTANTS = [
            "        flowmap: dict[Hashable, list[http.HTTPFlow]] = {}\n        for flows in self.flowmap.values():\n            flowmap.setdefault(self._hash(flows[0]), []).extend(flows)\n        self.flowmap = flowmap\n", "R52.3"),
     Mutant("reindex-adds-without-reset", F, "        flows = [flow for lst in self.flowmap.values() for flow in lst]\n        self.load_flows(flows)\n",
            "        flows = [flow for lst in self.flowmap.values() for flow in lst]\n        self.add_flows(flows)\n", "R52.3"),
-    Mutant("lazy-reindex-snapshot", F, "flows = [flow for lst in self.flowmap.values() for flow in lst]", "flows = (flow for lst in self.flowmap.values() for flow in lst)", "R52.3"),
+    Mutant("lazy-snapshot-consumed-after-clear", F, "        flows = [flow for lst in self.flowmap.values() for flow in lst]\n        self.load_flows(flows)\n",
+           "        flows = (flow for lst in self.flowmap.values() for flow in lst)\n        self.flowmap.clear()\n        self.add_flows(flows)\n", "R52.3"),
     Mutant("reindex-drops-responseless", F, "flows = [flow for lst in self.flowmap.values() for flow in lst]", "flows = [flow for lst in self.flowmap.values() for flow in lst if flow.response]", "R52.3"),
-    Mutant("reindex-flattens-with-sum", F, "flows = [flow for lst in self.flowmap.values() for flow in lst]", "flows = sum(self.flowmap.values(), [])", "R52.4"),
+    Mutant("reindex-keeps-one-flow-per-key", F, "flows = [flow for lst in self.flowmap.values() for flow in lst]", "flows = [lst[0] for lst in self.flowmap.values()]", "R52.3"),
+    Mutant("reindex-walks-old-keys-backwards", F, "flows = [flow for lst in self.flowmap.values() for flow in lst]", "flows = [flow for lst in reversed(list(self.flowmap.values())) for flow in lst]", "R52.4"),
     Mutant("add-flows-prepends", F, "                lst.append(f)", "                lst.insert(0, f)", "R52.3"),
     Mutant("kill-option-ignored", F, "                ctx.options.server_replay_kill_extra\n                or ctx.options.server_replay_extra == \"kill\"", "                ctx.options.server_replay_kill_extra", "R52.3"),
     Mutant("replayed-flow-not-marked", F, "                f.response = response\n                f.is_replay = \"response\"", "                f.response = response", "R52.3"),
+    Mutant("status-answer-for-forward", F, "            elif ctx.options.server_replay_extra != \"forward\":", "            elif ctx.options.server_replay_extra != \"kill\":", "R52.3"),
+    Mutant("hook-active-without-recordings", F, "    def request(self, f: http.HTTPFlow) -> None:\n        if self.flowmap:", "    def request(self, f: http.HTTPFlow) -> None:\n        if True:", "R52.3"),
 ]
